@@ -1,6 +1,6 @@
 (* Proofs/FlashEncProofs.v -- lemmas for C13 (flash encryption: OTFAD, IEE, BEE). *)
 From Coq Require Import ZArith NArith List Bool Lia.
-Require Import Value Bytes BytesProofs GenMisc MiscModel Aes Modes KeyWrap Crc CryptoProofs FlashEncModel.
+Require Import Value Bytes BytesProofs GenMisc MiscModel MiscProofs Aes Modes KeyWrap Crc CryptoProofs GenFlashEnc FlashEncModel.
 Import ListNotations.
 Local Open Scope Z_scope.
 Ltac Zify.zify_post_hook ::= Z.to_euclidean_division_equations.
@@ -185,45 +185,1595 @@ Variable al : Z -> Prop.                        (* alignment invariant of the pi
 Variable top : Z.                               (* address just behind the image *)
 Variable piece_ok : Z -> list N -> list N -> Prop.
 Variable P : Z -> list N -> list N -> Prop.
+Variable good : list N -> Prop.                 (* a property of the image inherited by its pieces *)
+Hypothesis good_firstn : forall n l, good l -> good (firstn n l).
+Hypothesis good_skipn : forall n l, good l -> good (skipn n l).
 Hypothesis Hunit : (0 < unit)%nat.
 Hypothesis al_step : forall a, al a -> al (a + Z.of_nat unit).
 Hypothesis g_ok : forall a p, al a -> p <> [] -> (length p <= unit)%nat -> a + zlen p <= top ->
-  (length p = unit \/ a + zlen p = top) -> exists c, g a p = Ok c /\ piece_ok a p c.
+  (length p = unit \/ a + zlen p = top) -> good p -> exists c, g a p = Ok c /\ piece_ok a p c.
 Hypothesis P_nil : forall a, P a [] [].
 Hypothesis P_last : forall a p c, al a -> p <> [] -> (length p <= unit)%nat -> a + zlen p = top -> piece_ok a p c -> P a p c.
 Hypothesis P_step : forall a p c rest out, al a -> length p = unit -> piece_ok a p c -> rest <> [] ->
   P (a + Z.of_nat unit) rest out -> P a (p ++ rest) (c ++ out).
 
 Lemma walk_induction fuel : forall base data, (length data <= fuel)%nat -> al base -> base + zlen data = top ->
-  exists out, seq_concat (pieces g unit base data) = Ok out /\ P base data out.
+  good data -> exists out, seq_concat (pieces g unit base data) = Ok out /\ P base data out.
 Proof.
-  induction fuel as [|fu IH]; intros base data Hf Hal Htop.
+  induction fuel as [|fu IH]; intros base data Hf Hal Htop Hgood.
   - destruct data; [|simpl in Hf; lia]. exists []. split; [reflexivity | apply P_nil].
   - destruct data as [|b d']; [exists []; split; [reflexivity | apply P_nil]|].
-    set (data := b :: d') in *.
-    assert (Hne : data <> []) by discriminate.
+    remember (b :: d') as data eqn:Hdata.
+    assert (Hne : data <> []) by (subst data; discriminate).
+    assert (Hlen : length data = S (length d')) by (subst data; reflexivity).
+    clear Hdata.
+    pose proof (good_firstn unit data Hgood) as Hg1. pose proof (good_skipn unit data Hgood) as Hg2.
     rewrite (pieces_cons g unit base data) by assumption.
     destruct (Nat.le_gt_cases (length data) unit) as [Hle|Hgt].
     + rewrite firstn_all2 by assumption. rewrite skipn_all2 by assumption. rewrite pieces_nil.
       assert (Hle2 : base + zlen data <= top) by (rewrite Htop; apply Z.le_refl).
-      destruct (g_ok base data Hal Hne Hle Hle2 (or_intror Htop)) as (c & Hc & Hok).
+      destruct (g_ok base data Hal Hne Hle Hle2 (or_intror Htop) Hgood) as (c & Hc & Hok).
       exists c. simpl. rewrite Hc. rewrite app_nil_r. split; [reflexivity|]. now apply P_last.
     + assert (Hl : length (firstn unit data) = unit) by (rewrite firstn_length; lia).
       assert (Hz : zlen (firstn unit data) = Z.of_nat unit) by (unfold zlen; now rewrite Hl).
       assert (Hsplit : zlen (firstn unit data) + zlen (skipn unit data) = zlen data)
         by (rewrite <- zlen_app, firstn_skipn; reflexivity).
       assert (Hrest : skipn unit data <> []).
-      { intros E. apply (f_equal (@length N)) in E. rewrite skipn_length in E. simpl in E. lia. }
+      { intros E. apply (f_equal (@length N)) in E. rewrite skipn_length in E. change (length (@nil N)) with 0%nat in E. lia. }
       pose proof (zlen_nonneg (skipn unit data)).
-      destruct (g_ok base (firstn unit data) Hal) as (c & Hc & Hok); try lia.
+      destruct (g_ok base (firstn unit data) Hal) as (c & Hc & Hok); try lia; try assumption.
       { intros E. rewrite E in Hl. simpl in Hl. lia. }
-      { left; assumption. }
       rewrite Hz.
       destruct (IH (base + Z.of_nat unit) (skipn unit data)) as (out & Ho & HP).
-      { rewrite skipn_length. subst data. cbn [length] in *. lia. }
+      { rewrite skipn_length. lia. }
       { now apply al_step. }
       { lia. }
+      { assumption. }
       exists (c ++ out). cbn [seq_concat]. rewrite Hc, Ho. split; [reflexivity|].
       rewrite <- (firstn_skipn unit data) at 1. now apply P_step.
 Qed.
 End WalkInduction.
+
+(* ---------------- encrypting walk followed by a per-unit hardware model ---------------- *)
+Section WalkRoundtrip.
+Variable g : Z -> list N -> res (list N).
+Variable hu : Z -> list N -> list N.            (* the hardware on one unit fetched at an aligned address *)
+Variable unit : nat.
+Variable al : Z -> Prop.
+Variable top : Z.
+Variable Q : Z -> Prop.                         (* "this address is outside every active region" *)
+Variable good : list N -> Prop.
+Hypothesis good_firstn : forall n l, good l -> good (firstn n l).
+Hypothesis good_skipn : forall n l, good l -> good (skipn n l).
+Hypothesis Hunit : (0 < unit)%nat.
+Hypothesis al_step : forall a, al a -> al (a + Z.of_nat unit).
+
+Definition rt_piece (a : Z) (p c : list N) : Prop :=
+  (length p <= length c <= unit)%nat /\ (length p = unit -> length c = unit) /\
+  length (hu a c) = length c /\ firstn (length p) (hu a c) = p /\
+  (forall i, (i < length p)%nat -> Q (a + Z.of_nat i) -> nth i c 0%N = nth i p 0%N).
+
+Definition rt_whole (base : Z) (data out : list N) : Prop :=
+  (length data <= length out)%nat /\
+  firstn (length data) (concat (pieces hu unit base out)) = data /\
+  (forall i, (i < length data)%nat -> Q (base + Z.of_nat i) -> nth i out 0%N = nth i data 0%N).
+
+Hypothesis g_ok : forall a p, al a -> p <> [] -> (length p <= unit)%nat -> a + zlen p <= top ->
+  (length p = unit \/ a + zlen p = top) -> good p -> exists c, g a p = Ok c /\ rt_piece a p c.
+
+Lemma walk_roundtrip base data : al base -> base + zlen data = top -> good data ->
+  exists out, seq_concat (pieces g unit base data) = Ok out /\ rt_whole base data out.
+Proof.
+  intros Hal Htop Hgood.
+  apply (walk_induction g unit al top rt_piece rt_whole good good_firstn good_skipn Hunit al_step g_ok)
+    with (fuel := length data); try assumption; try lia.
+  - intros a. repeat split; simpl; intros; lia.
+  - intros a p c Ha Hp Hl _ (L1 & L2 & L3 & L4 & L5).
+    assert (Hc : c <> []) by (intros ->; destruct p; [congruence | simpl in L1; lia]).
+    repeat split; try lia.
+    + rewrite pieces_single by (try assumption; lia). cbn [concat]. now rewrite app_nil_r.
+    + exact L5.
+  - intros a p c rest out Ha Hp (L1 & L2 & L3 & L4 & L5) Hrest (R1 & R2 & R3).
+    specialize (L2 Hp).
+    assert (Hzc : zlen c = Z.of_nat unit) by (unfold zlen; now rewrite L2).
+    repeat split.
+    + rewrite !app_length. lia.
+    + rewrite (concat_pieces_app hu unit 1) by (try assumption; simpl; lia).
+      assert (Hc : c <> []) by (intros ->; simpl in L2; lia).
+      rewrite pieces_single by (try assumption; lia). cbn [concat]. rewrite app_nil_r.
+      rewrite app_length, firstn_app, L3, L2, Hp.
+      rewrite firstn_all2 by lia.
+      replace (unit + length rest - unit)%nat with (length rest) by lia.
+      rewrite Hzc, R2. f_equal.
+      rewrite <- L4. rewrite Hp. symmetry. apply firstn_all2. lia.
+    + intros i Hi HQ. rewrite app_length in Hi.
+      destruct (Nat.lt_ge_cases i unit) as [Hlt|Hge].
+      * rewrite !app_nth1 by lia. apply L5; [lia | assumption].
+      * rewrite !app_nth2 by lia. rewrite L2, Hp. apply R3; [lia|].
+        replace (a + Z.of_nat unit + Z.of_nat (i - unit)) with (a + Z.of_nat i) by lia. exact HQ.
+Qed.
+End WalkRoundtrip.
+
+(* ================================================================== small facts ======================= *)
+Lemma pad16_cases l : (pad16 l = l /\ Nat.modulo (length l) 16 = 0%nat) \/
+                      (exists k, (0 < k < 16)%nat /\ pad16 l = l ++ zeros k /\ Nat.modulo (length l + k) 16 = 0%nat).
+Proof.
+  unfold pad16, BS. destruct (Nat.modulo (length l) 16) eqn:E; [left; auto|].
+  right. exists (16 - S n)%nat.
+  pose proof (Nat.mod_upper_bound (length l) 16 ltac:(lia)) as Hb.
+  pose proof (Nat.div_mod (length l) 16 ltac:(lia)) as Hd.
+  repeat split; try lia.
+  replace (length l + (16 - S n))%nat with ((length l / 16 + 1) * 16)%nat by lia.
+  apply Nat.mod_mul. lia.
+Qed.
+
+Lemma zeros_length k : length (zeros k) = k.
+Proof. apply repeat_length. Qed.
+
+Lemma pad16_length_ge l : (length l <= length (pad16 l))%nat.
+Proof. destruct (pad16_cases l) as [[-> _]|(k & _ & -> & _)]; [lia|]. rewrite app_length. lia. Qed.
+Lemma pad16_length_mod l : Nat.modulo (length (pad16 l)) 16 = 0%nat.
+Proof. destruct (pad16_cases l) as [[-> H]|(k & _ & -> & H)]; [exact H|]. now rewrite app_length, zeros_length. Qed.
+Lemma pad16_prefix l : firstn (length l) (pad16 l) = l.
+Proof.
+  destruct (pad16_cases l) as [[-> _]|(k & _ & -> & _)]; [apply firstn_all|].
+  rewrite firstn_app, Nat.sub_diag, firstn_all. simpl. apply app_nil_r.
+Qed.
+Lemma pad16_le l m : (length l <= m)%nat -> Nat.modulo m 16 = 0%nat -> (length (pad16 l) <= m)%nat.
+Proof.
+  intros Hl Hm. destruct (pad16_cases l) as [[-> _]|(k & Hk & -> & H)]; [lia|].
+  rewrite app_length, zeros_length.
+  pose proof (Nat.div_mod m 16 ltac:(lia)). pose proof (Nat.div_mod (length l + k) 16 ltac:(lia)).
+  destruct (Nat.le_gt_cases (length l + k) m); [assumption|]. exfalso.
+  assert ((length l + k) / 16 <= m / 16)%nat by (apply Nat.div_le_mono; lia). nia.
+Qed.
+Lemma pad16_nonnil l : l <> [] -> pad16 l <> [].
+Proof. intros H E. pose proof (pad16_length_ge l). rewrite E in H0. destruct l; [congruence | simpl in H0; lia]. Qed.
+Lemma pad16_nth i l : (i < length l)%nat -> nth i (pad16 l) 0%N = nth i l 0%N.
+Proof.
+  intros Hi. destruct (pad16_cases l) as [[-> _]|(k & _ & -> & _)]; [reflexivity|]. now rewrite app_nth1.
+Qed.
+
+Lemma swap8_length b : length b = 16%nat -> length (swap8 b) = 16%nat.
+Proof. intros H. unfold swap8. rewrite app_length, !rev_length, firstn_length, skipn_length. lia. Qed.
+Lemma swap8_invol b : length b = 16%nat -> swap8 (swap8 b) = b.
+Proof.
+  intros H. do 17 (destruct b as [|? b]; try discriminate). reflexivity.
+Qed.
+
+Lemma be32_length z : length (be32 z) = 4%nat.
+Proof. apply be_enc_length. Qed.
+Lemma le32_length z : length (le32 z) = 4%nat.
+Proof. apply le_enc_length. Qed.
+
+(* ================================================================== OTFAD ============================= *)
+
+
+
+
+Lemma flags_cases f : 0 <= f < 8 -> f = 0 \/ f = 1 \/ f = 2 \/ f = 3 \/ f = 4 \/ f = 5 \/ f = 6 \/ f = 7.
+Proof. lia. Qed.
+
+Lemma ef_nonzero k : kb_wf k ->
+  kb_end_with_flags k = Z.lor (Z.lor (Z.land (kb_end k - 1) (Z.lnot 7)) (kb_flags k)) 1016.
+Proof.
+  intros (_ & H0 & _ & H1 & _). unfold kb_end_with_flags.
+  destruct (kb_end k =? 0) eqn:E; [apply Z.eqb_eq in E; lia | reflexivity].
+Qed.
+
+Lemma ef_shift k : kb_wf k -> Z.shiftr (kb_end_with_flags k) 10 = (kb_end k - 1) / 1024.
+Proof.
+  intros W. rewrite (ef_nonzero k W). destruct W as (_ & _ & _ & _ & _ & _ & Hf).
+  rewrite !Z.shiftr_lor, Z.shiftr_land.
+  change (Z.shiftr (Z.lnot 7) 10) with (-1). change (Z.shiftr 1016 10) with 0.
+  rewrite Z.land_m1_r, Z.lor_0_r.
+  replace (Z.shiftr (kb_flags k) 10) with 0.
+  - rewrite Z.lor_0_r. rewrite Z.shiftr_div_pow2 by lia. reflexivity.
+  - rewrite Z.shiftr_div_pow2 by lia. symmetry. apply Z.div_small. change (2 ^ 10) with 1024. lia.
+Qed.
+
+Lemma ef_bit k n : kb_wf k -> 0 <= n < 3 -> Z.testbit (kb_end_with_flags k) n = Z.testbit (kb_flags k) n.
+Proof.
+  intros W Hn. rewrite (ef_nonzero k W).
+  rewrite !Z.lor_spec, Z.land_spec, Z.lnot_spec by lia.
+  assert (n = 0 \/ n = 1 \/ n = 2) as [-> | [-> | ->]] by lia; simpl;
+    rewrite andb_false_r, orb_false_r; reflexivity.
+Qed.
+
+Lemma ef_range k : kb_wf k -> 0 <= kb_end_with_flags k < 4294967296.
+Proof.
+  intros W. pose proof (ef_shift k W) as H. rewrite Z.shiftr_div_pow2 in H by lia. change (2 ^ 10) with 1024 in H.
+  destruct W as (_ & H0 & _ & H1 & H2 & _ & Hf). lia.
+Qed.
+
+Lemma oc_hit_blob k a : kb_wf k -> oc_hit (octx_of_blob k) a = Z.testbit (kb_flags k) 0 && kb_covers k a.
+Proof.
+  intros W. unfold oc_hit, kb_covers. cbn [octx_of_blob oc_w0 oc_w1].
+  rewrite (ef_bit k 0 W) by lia. rewrite (ef_shift k W).
+  rewrite !Z.shiftr_div_pow2 by lia. change (2 ^ 10) with 1024. now rewrite andb_assoc.
+Qed.
+
+Lemma oc_ade_blob k : kb_wf k -> oc_ade (octx_of_blob k) = Z.testbit (kb_flags k) 1.
+Proof. intros W. unfold oc_ade. cbn [octx_of_blob oc_w1]. apply ef_bit; [assumption | lia]. Qed.
+
+Lemma kb_is_encrypted_bits k : kb_wf k -> kb_is_encrypted k = Z.testbit (kb_flags k) 0 && Z.testbit (kb_flags k) 1.
+Proof.
+  intros (_ & _ & _ & _ & _ & _ & Hf). unfold kb_is_encrypted.
+  destruct (flags_cases _ Hf) as [E|[E|[E|[E|[E|[E|[E|E]]]]]]]; rewrite E; reflexivity.
+Qed.
+
+Lemma kb_covers_unit k a a' : a' / 1024 = a / 1024 -> kb_covers k a' = kb_covers k a.
+Proof. intros H. unfold kb_covers. now rewrite H. Qed.
+
+(* SPSDK's test on a piece inside one 1 KiB unit agrees with the hardware's region test, except for the single byte
+   at an exclusive end address *)
+Lemma kb_matches_covers k a L :
+  kb_wf k -> 0 <= a -> a mod 1024 = 0 -> 1 <= L <= 1024 ->
+  ~ (kb_end k mod 1024 = 0 /\ a = kb_end k /\ L = 1) ->
+  kb_matches k a (a + L - 1) = kb_covers k a.
+Proof.
+  intros (_ & H0 & H1 & H2 & H3 & H4 & _) Ha Hal HL Hx.
+  unfold kb_matches, kb_contains, kb_covers.
+  apply eq_true_iff_eq. rewrite !andb_true_iff, !Z.leb_le. lia.
+Qed.
+
+Lemma blob_fold_nomatch {B} (M : B -> bool) enc L l r :
+  (forall k, In k l -> M k = false) -> blob_fold M enc L l r = Ok r.
+Proof.
+  induction l as [|k l IH]; intros H; [reflexivity|].
+  cbn [blob_fold]. rewrite (H k (or_introl eq_refl)). apply IH. intros k' Hk'. apply H. now right.
+Qed.
+
+Definition piece_not_f2 (blobs : list kblob) (a : Z) (L : Z) : Prop :=
+  forall k, In k blobs -> ~ (kb_end k mod 1024 = 0 /\ a = kb_end k /\ L = 1).
+
+Lemma otfad_piece_sel (E : cipher) blobs swap a p :
+  Forall kb_wf blobs -> blobs_disjoint blobs -> 0 <= a -> a mod 1024 = 0 -> p <> [] -> (length p <= 1024)%nat ->
+  piece_not_f2 blobs a (zlen p) ->
+  otfad_piece E blobs swap a p =
+  match find (fun k => kb_covers k a) blobs with
+  | Some k => if kb_is_encrypted k then kb_encrypt_image E k a p swap a else Ok p
+  | None => Ok p
+  end.
+Proof.
+  intros W D Ha Hal Hp Hl Hx. unfold otfad_piece.
+  assert (HL : 1 <= zlen p <= 1024) by (unfold zlen; destruct p; [congruence | simpl length in *; lia]).
+  assert (Gen : forall r, blob_fold (fun k => kb_matches k a (a + zlen p - 1) && kb_is_encrypted k)
+                  (fun k => kb_encrypt_image E k a p swap a) (length p) blobs r =
+                match find (fun k => kb_covers k a) blobs with
+                | Some k => if kb_is_encrypted k
+                            then match kb_encrypt_image E k a p swap a with Ok d => Ok (d ++ skipn (length p) r) | Err e => Err e end
+                            else Ok r
+                | None => Ok r
+                end).
+  { induction blobs as [|k l IH]; intros r; [reflexivity|].
+    inversion W as [|? ? Wk Wl]; subst. inversion D as [|? ? Dk Dl]; subst.
+    cbn [blob_fold find].
+    rewrite (kb_matches_covers k a (zlen p) Wk Ha Hal HL) by (apply Hx; now left).
+    destruct (kb_covers k a) eqn:Ec.
+    - assert (Hno : forall k', In k' l -> kb_matches k' a (a + zlen p - 1) && kb_is_encrypted k' = false).
+      { intros k' Hk'. rewrite Forall_forall in Dk, Wl.
+        rewrite (kb_matches_covers k' a (zlen p) (Wl _ Hk') Ha Hal HL) by (apply Hx; now right).
+        now rewrite (Dk k' Hk' a Ec). }
+      cbn [andb]. destruct (kb_is_encrypted k).
+      + destruct (kb_encrypt_image E k a p swap a); [|reflexivity]. now apply blob_fold_nomatch.
+      + now apply blob_fold_nomatch.
+    - cbn [andb]. apply IH; try assumption. intros k' Hk'. apply Hx. now right. }
+  rewrite Gen. destruct (find (fun k => kb_covers k a) blobs) as [k|]; [|reflexivity].
+  destruct (kb_is_encrypted k); [|reflexivity].
+  destruct (kb_encrypt_image E k a p swap a); [|reflexivity].
+  now rewrite skipn_all, app_nil_r.
+Qed.
+
+(* what the hardware does to one 16-byte block inside the region of blob k *)
+Definition hwk (E : cipher) (k : kblob) (swap : bool) (a : Z) (c : list N) : list N :=
+  let ks := E (kb_key k) (oc_counter (octx_of_blob k) a) in
+  if swap then swap8 (xor_bytes (swap8 c) ks) else xor_bytes c ks.
+
+Lemma find_hit_none l a : Forall kb_wf l -> (forall k, In k l -> kb_covers k a = false) ->
+  find (fun x => oc_hit x a) (map octx_of_blob l) = None.
+Proof.
+  induction l as [|k l IH]; intros W H; [reflexivity|]. inversion W; subst.
+  cbn [map find]. rewrite oc_hit_blob by assumption. rewrite (H k (or_introl eq_refl)), andb_false_r.
+  apply IH; [assumption|]. intros k' Hk'. apply H. now right.
+Qed.
+
+Lemma otfad_hw_block_sel (E : cipher) blobs swap a c :
+  Forall kb_wf blobs -> blobs_disjoint blobs ->
+  otfad_hw_block E (map octx_of_blob blobs) swap a c =
+  match find (fun k => kb_covers k a) blobs with
+  | Some k => if kb_is_encrypted k then hwk E k swap a c else c
+  | None => c
+  end.
+Proof.
+  intros W D. unfold otfad_hw_block.
+  induction blobs as [|k l IH]; [reflexivity|].
+  inversion W as [|? ? Wk Wl]; subst. inversion D as [|? ? Dk Dl]; subst.
+  cbn [map find]. rewrite oc_hit_blob by assumption.
+  destruct (kb_covers k a) eqn:Ec.
+  - rewrite (kb_is_encrypted_bits k Wk).
+    destruct (Z.testbit (kb_flags k) 0) eqn:E0; cbn [andb].
+    + rewrite (oc_ade_blob k Wk). destruct (Z.testbit (kb_flags k) 1); reflexivity.
+    + rewrite find_hit_none; [reflexivity | assumption|].
+      intros k' Hk'. rewrite Forall_forall in Dk. now apply Dk.
+  - rewrite andb_false_r. now apply IH.
+Qed.
+
+Lemma find_covers_unit l a a' : a' / 1024 = a / 1024 ->
+  find (fun k => kb_covers k a') l = find (fun k => kb_covers k a) l.
+Proof.
+  intros H. induction l as [|k l IH]; [reflexivity|]. cbn [find]. rewrite (kb_covers_unit k a a' H).
+  destruct (kb_covers k a); [reflexivity | exact IH].
+Qed.
+
+Section OtfadImage.
+Variable E : cipher.
+
+Lemma kb_counter_eq k a : length (kb_ctr k) = 8%nat -> a mod 16 = 0 ->
+  oc_counter (octx_of_blob k) a = kb_nonce12 (kb_ctr k) ++ be32 a /\ length (oc_counter (octx_of_blob k) a) = 16%nat.
+Proof.
+  intros Hc Ha. unfold oc_counter, kb_nonce12. cbn [octx_of_blob oc_ctr].
+  replace (16 * (a / 16)) with a by lia. split.
+  - rewrite <- !app_assoc. rewrite (app_assoc (firstn 4 (kb_ctr k))), firstn_skipn. reflexivity.
+  - rewrite !app_length, xor_bytes_length_min, firstn_length, skipn_length, be32_length, Hc. reflexivity.
+Qed.
+
+Lemma kb_block_inverse k swap a b :
+  (forall x, length x = 16%nat -> length (E (kb_key k) x) = 16%nat) ->
+  length (kb_ctr k) = 8%nat -> a mod 16 = 0 -> length b = 16%nat ->
+  length (kb_block (E (kb_key k)) (kb_nonce12 (kb_ctr k)) swap a b) = 16%nat /\
+  hwk E k swap a (kb_block (E (kb_key k)) (kb_nonce12 (kb_ctr k)) swap a b) = b.
+Proof.
+  intros E_len Hc Ha Hb. destruct (kb_counter_eq k a Hc Ha) as [Eq Len].
+  unfold hwk, kb_block. rewrite Eq. rewrite Eq in Len.
+  set (ks := E (kb_key k) (kb_nonce12 (kb_ctr k) ++ be32 a)).
+  assert (Hks : length ks = 16%nat) by (apply E_len; exact Len).
+  destruct swap.
+  - assert (L1 : length (xor_bytes (swap8 b) ks) = 16%nat)
+      by (rewrite xor_bytes_length_min, swap8_length, Hks; auto).
+    split; [now apply swap8_length|].
+    rewrite swap8_invol by assumption. rewrite xor_bytes_cancel by (rewrite swap8_length, Hks; auto).
+    now apply swap8_invol.
+  - split; [rewrite xor_bytes_length_min, Hb, Hks; reflexivity|].
+    apply xor_bytes_cancel. rewrite Hb, Hks. auto.
+Qed.
+
+Variable blobs : list kblob.
+Variable swap : bool.
+(* the block cipher maps 16-byte blocks to 16-byte blocks under the keys in use (no invertibility needed: CTR) *)
+Hypothesis E_len : forall k, In k blobs -> forall x, length x = 16%nat -> length (E (kb_key k) x) = 16%nat.
+Hypothesis W : Forall kb_wf blobs.
+Hypothesis Dj : blobs_disjoint blobs.
+
+Definition otfad_hu (a : Z) (c : list N) : list N :=
+  concat (pieces (otfad_hw_block E (map octx_of_blob blobs) swap) 16 a c).
+
+Lemma otfad_hu_sel a c : 0 <= a -> a mod 1024 = 0 -> (length c <= 1024)%nat ->
+  otfad_hu a c =
+  match find (fun k => kb_covers k a) blobs with
+  | Some k => if kb_is_encrypted k then concat (pieces (hwk E k swap) 16 a c) else c
+  | None => c
+  end.
+Proof.
+  intros Ha Hal Hl. unfold otfad_hu.
+  assert (Hr : forall a' b, a <= a' < a + zlen c ->
+            otfad_hw_block E (map octx_of_blob blobs) swap a' b =
+            match find (fun k => kb_covers k a) blobs with
+            | Some k => if kb_is_encrypted k then hwk E k swap a' b else b
+            | None => b
+            end).
+  { intros a' b Hr. rewrite otfad_hw_block_sel by assumption.
+    rewrite (find_covers_unit blobs a a'); [reflexivity|]. unfold zlen in Hr. lia. }
+  rewrite (pieces_ext_range _ _ 16 a c Hr).
+  destruct (find (fun k => kb_covers k a) blobs) as [k|].
+  - destruct (kb_is_encrypted k); [reflexivity|]. apply concat_pieces_id. lia.
+  - apply concat_pieces_id. lia.
+Qed.
+
+Lemma rt_piece_id a p : p <> [] -> (length p <= 1024)%nat -> otfad_hu a p = p ->
+  rt_piece otfad_hu 1024 (otfad_outside blobs) a p p.
+Proof. intros Hp Hl Hh. unfold rt_piece. rewrite Hh. repeat split; try lia; auto. apply firstn_all. Qed.
+
+Lemma otfad_piece_ok a p :
+  0 <= a -> a mod 1024 = 0 -> p <> [] -> (length p <= 1024)%nat -> piece_not_f2 blobs a (zlen p) ->
+  exists c, otfad_piece E blobs swap a p = Ok c /\ rt_piece otfad_hu 1024 (otfad_outside blobs) a p c.
+Proof.
+  intros Ha Hal Hp Hl Hx.
+  rewrite (otfad_piece_sel E blobs swap a p W Dj Ha Hal Hp Hl Hx).
+  destruct (find (fun k => kb_covers k a) blobs) as [k|] eqn:Ef.
+  2:{ exists p. split; [reflexivity|]. apply rt_piece_id; try assumption.
+      rewrite otfad_hu_sel by assumption. now rewrite Ef. }
+  destruct (kb_is_encrypted k) eqn:Ee.
+  2:{ exists p. split; [reflexivity|]. apply rt_piece_id; try assumption.
+      rewrite otfad_hu_sel by assumption. now rewrite Ef, Ee. }
+  destruct (find_some _ _ Ef) as [Hin Hcov].
+  pose proof (proj1 (Forall_forall _ _) W k Hin) as Wk.
+  destruct Wk as (Hc & H0 & H1 & H2 & H3 & H4 & H5).
+  set (d := pad16 p).
+  assert (Hd1 : (length p <= length d)%nat) by apply pad16_length_ge.
+  assert (Hd2 : (length d <= 1024)%nat) by (apply pad16_le; [assumption | reflexivity]).
+  assert (Hd3 : Nat.modulo (length d) 16 = 0%nat) by apply pad16_length_mod.
+  destruct (mod_mult_exists _ 16 ltac:(lia) Hd3) as [q Hq].
+  unfold kb_covers in Hcov. apply andb_true_iff in Hcov. destruct Hcov as [Hc1 Hc2].
+  apply Z.leb_le in Hc1, Hc2.
+  assert (Ecv : (if a =? 0 then kb_start k else a) = a).
+  { destruct (a =? 0) eqn:E0; [|reflexivity]. apply Z.eqb_eq in E0. lia. }
+  assert (Henc : kb_encrypt_image E k a p swap a =
+                 Ok (concat (pieces (kb_block (E (kb_key k)) (kb_nonce12 (kb_ctr k)) swap) 16 a d))).
+  { unfold kb_encrypt_image. fold d.
+    replace (a mod 16 =? 0) with true by (symmetry; apply Z.eqb_eq; lia).
+    rewrite Hc. cbn [Nat.eqb negb]. rewrite Ecv.
+    replace ((0 <? zlen d) && (a + zlen d >? M32)) with false; [reflexivity|].
+    symmetry. apply andb_false_iff. right. rewrite Z.gtb_ltb. apply Z.ltb_ge. unfold M32, zlen. lia. }
+  rewrite Henc. eexists. split; [reflexivity|].
+  destruct (pieces_inverse (kb_block (E (kb_key k)) (kb_nonce12 (kb_ctr k)) swap) (hwk E k swap) 16 q a d
+              ltac:(lia) Hq) as [Inv Len].
+  { intros j b Hj Hb. apply kb_block_inverse; [now apply E_len | assumption | lia | assumption]. }
+  set (c := concat (pieces (kb_block (E (kb_key k)) (kb_nonce12 (kb_ctr k)) swap) 16 a d)) in *.
+  assert (Hh : otfad_hu a c = d).
+  { rewrite otfad_hu_sel by (try assumption; lia). rewrite Ef, Ee. exact Inv. }
+  unfold rt_piece. rewrite Hh, Len. repeat split; try lia.
+  - apply pad16_prefix.
+  - intros i Hi HQ. exfalso.
+    assert (Hcv : kb_covers k (a + Z.of_nat i) = true).
+    { rewrite (kb_covers_unit k a) by lia. unfold kb_covers. apply andb_true_iff. split; now apply Z.leb_le. }
+    rewrite (HQ k Hin Hcv) in Ee. discriminate.
+Qed.
+
+(* the whole image, 1 KiB-aligned base *)
+Lemma otfad_decrypts_aligned img base :
+  0 <= base -> base mod 1024 = 0 ->
+  (forall k, In k blobs -> kb_end k mod 1024 = 0 -> kb_end k <> base + zlen img - 1) ->
+  exists out, otfad_encrypt_image E blobs img base swap = Ok out /\
+              (length img <= length out)%nat /\
+              firstn (length img) (otfad_hw E (map octx_of_blob blobs) swap base out) = img /\
+              (forall i, (i < length img)%nat -> (otfad_outside blobs) (base + Z.of_nat i) -> nth i out 0%N = nth i img 0%N).
+Proof.
+  intros Hb Hal Hx.
+  destruct (walk_roundtrip (otfad_piece E blobs swap) otfad_hu 1024 (fun a => 0 <= a /\ a mod 1024 = 0)
+              (base + zlen img) (otfad_outside blobs) (fun _ => True) ltac:(auto) ltac:(auto) ltac:(lia))
+    with (base := base) (data := img)
+    as (out & Ho & R1 & R2 & R3); try (split; assumption); try reflexivity; try exact I.
+  - intros a [A1 A2]. split; lia.
+  - intros a p [A1 A2] Hp Hl Htop Hlast _. apply otfad_piece_ok; try assumption.
+    intros k Hin (K1 & K2 & K3). apply (Hx k Hin K1). destruct Hlast as [Hlast|Hlast].
+    + unfold zlen in K3. lia.
+    + lia.
+  - exists out. unfold otfad_encrypt_image, U1K. split; [exact Ho|]. split; [exact R1|]. split; [|exact R3].
+    unfold otfad_hw. rewrite (pieces_regroup _ 16 64 (length out)) by lia. exact R2.
+Qed.
+End OtfadImage.
+
+(* ================================================================== list surgery helpers =============== *)
+Lemma firstn_app_exact {A} n (a b : list A) : length a = n -> firstn n (a ++ b) = a.
+Proof. intros <-. rewrite firstn_app, Nat.sub_diag, firstn_all. simpl. apply app_nil_r. Qed.
+Lemma skipn_app_exact {A} n (a b : list A) : length a = n -> skipn n (a ++ b) = b.
+Proof. intros <-. rewrite skipn_app, Nat.sub_diag, skipn_all. reflexivity. Qed.
+
+Lemma le32_dec z : 0 <= z < 4294967296 -> Z.of_N (le_dec (le32 z)) = z.
+Proof.
+  intros H. unfold le32. rewrite le_dec_enc_small; [lia|]. change (2 ^ (8 * N.of_nat 4))%N with 4294967296%N. lia.
+Qed.
+
+Lemma swap_groups_invol48 cnt l : In cnt [2; 4; 8; 16]%nat -> length l = 48%nat -> swap_groups cnt (swap_groups cnt l) = l.
+Proof.
+  intros Hc Hl. do 49 (destruct l as [|? l]; try discriminate).
+  destruct Hc as [<-|[<-|[<-|[<-|[]]]]]; reflexivity.
+Qed.
+Lemma swap_groups_length48 cnt l : In cnt [2; 4; 8; 16]%nat -> length l = 48%nat -> length (swap_groups cnt l) = 48%nat.
+Proof.
+  intros Hc Hl. do 49 (destruct l as [|? l]; try discriminate).
+  destruct Hc as [<-|[<-|[<-|[<-|[]]]]]; reflexivity.
+Qed.
+
+Lemma rnd4_wf : wf_bytes (rnd 4) /\ length (rnd 4) = 4%nat.
+Proof. split; [|reflexivity]. unfold wf_bytes, wf_byte. repeat constructor. Qed.
+
+(* ================================================================== OTFAD key blob ===================== *)
+
+Lemma kb_plain_shape k : kb_codec_wf k ->
+  exists zf, length zf = 4%nat /\ wf_bytes zf /\
+    let hdr := kb_key k ++ kb_ctr k ++ le32 (kb_start k) ++ le32 (kb_end_with_flags k) in
+    kb_plain k = Ok (hdr ++ zf ++ le_enc 4 (crc CRC32_MPEG2 hdr) ++ zeros 24) /\ length hdr = 32%nat.
+Proof.
+  intros (W & Lk & Wk & Wc & Hz & Hcf).
+  pose proof (ef_range k W) as He. destruct W as (Lc & H0 & H1 & H2 & H3 & H4 & H5).
+  assert (Lh : length (kb_key k ++ kb_ctr k ++ le32 (kb_start k) ++ le32 (kb_end_with_flags k)) = 32%nat)
+    by (rewrite !app_length, !le32_length, Lk, Lc; reflexivity).
+  assert (U : negb (u32_ok (kb_start k)) || negb (u32_ok (kb_end_with_flags k)) = false).
+  { unfold u32_ok. apply orb_false_iff. split; apply negb_false_iff, andb_true_iff; split;
+      try apply Z.leb_le; try apply Z.ltb_lt; lia. }
+  assert (L64 : forall h zf c, length h = 32%nat -> length zf = 4%nat ->
+                  length (h ++ zf ++ le_enc 4 c ++ zeros 24) = 64%nat).
+  { intros h zf c Hh Hzf. rewrite !app_length, Hh, Hzf, le_enc_length, zeros_length. reflexivity. }
+  unfold kb_plain. rewrite U, Hcf.
+  destruct (kb_zero k) as [|z0 zt] eqn:Ez.
+  - exists (rnd 4). destruct rnd4_wf as [R1 R2]. repeat split; try assumption.
+    cbv zeta. rewrite L64 by assumption. reflexivity.
+  - destruct Hz as [Hz|[Lz Wz]]; [discriminate|].
+    exists (z0 :: zt). repeat split; try assumption.
+    rewrite Lz. cbn [Nat.eqb negb]. cbv zeta. rewrite L64 by assumption. reflexivity.
+Qed.
+
+Section OtfadKeyBlob.
+Variable E D : cipher.
+Variable kek : list N.
+Hypothesis DE : forall b, okb b -> D kek (E kek b) = b.
+Hypothesis E_ok : forall b, okb b -> okb (E kek b).
+
+Lemma otfad_keyblob_unwrap_l k cnt :
+  kb_codec_wf k -> length kek = 16%nat -> In cnt [0; 2; 4; 8; 16] ->
+  exists rec, kb_export E k kek cnt = Ok rec /\ length rec = 64%nat /\
+              otfad_unwrap D kek cnt rec = Some (octx_of_blob k).
+Proof.
+  intros Wc Lkek Hcnt.
+  destruct (kb_plain_shape k Wc) as (zf & Lz & Wz & Hp & Lh). cbv zeta in Hp, Lh.
+  destruct Wc as (W & Lk & Wk & Wct & _ & _).
+  pose proof (ef_range k W) as He. pose proof W as (Lc & H0 & H1 & H2 & H3 & H4 & H5).
+  set (hdr := kb_key k ++ kb_ctr k ++ le32 (kb_start k) ++ le32 (kb_end_with_flags k)) in *.
+  set (crcb := le_enc 4 (crc CRC32_MPEG2 hdr)) in *.
+  set (p40 := hdr ++ zf ++ crcb).
+  assert (L40 : length p40 = 40%nat) by (unfold p40, crcb; rewrite !app_length, Lh, Lz, le_enc_length; reflexivity).
+  assert (F40 : firstn 40 (hdr ++ zf ++ crcb ++ zeros 24) = p40).
+  { unfold p40. rewrite (app_assoc zf), (app_assoc hdr). apply firstn_app_exact. exact L40. }
+  assert (W40 : wf_bytes p40).
+  { unfold p40, hdr, crcb. repeat apply wf_bytes_app; try assumption; apply le_enc_wf. }
+  destruct (kw_wrap_length (E kek) E_ok p40 W40 ltac:(rewrite L40; reflexivity)) as [Lw Ww].
+  rewrite L40 in Lw. change (8 + 40)%nat with 48%nat in Lw.
+  set (wrap := kw_wrap (E kek) p40) in *.
+  pose proof (unwrap_wrap_l (E kek) (D kek) DE E_ok p40 W40 ltac:(rewrite L40; reflexivity)) as Hun.
+  fold wrap in Hun.
+  (* the parsed fields *)
+  assert (Hctx : octx_of_plain p40 = octx_of_blob k).
+  { unfold octx_of_plain, octx_of_blob, p40, hdr. f_equal.
+    - rewrite <- !app_assoc. now apply firstn_app_exact.
+    - rewrite <- !app_assoc. rewrite skipn_app_exact by assumption. now apply firstn_app_exact.
+    - rewrite <- !app_assoc. rewrite (app_assoc (kb_key k)).
+      rewrite skipn_app_exact by (rewrite app_length, Lk, Lc; reflexivity).
+      rewrite firstn_app_exact by apply le32_length. apply le32_dec. lia.
+    - rewrite <- !app_assoc. rewrite (app_assoc (kb_key k)), (app_assoc (kb_key k ++ kb_ctr k)).
+      rewrite skipn_app_exact by (rewrite !app_length, le32_length, Lk, Lc; reflexivity).
+      rewrite firstn_app_exact by apply le32_length. now apply le32_dec. }
+  assert (Hcrc : eqb_list (firstn 4 (skipn 36 p40)) (le_enc 4 (crc CRC32_MPEG2 (firstn 32 p40))) = true).
+  { apply eqb_list_spec. unfold p40.
+    rewrite (firstn_app_exact 32) by assumption.
+    rewrite (app_assoc hdr). rewrite skipn_app_exact by (rewrite app_length, Lh, Lz; reflexivity).
+    apply firstn_all2. unfold crcb. rewrite le_enc_length. lia. }
+  unfold kb_export, otfad_unwrap. rewrite Lkek. cbn [Nat.eqb negb]. rewrite Hp, F40. fold wrap.
+  assert (Al : forall w, length w = 48%nat -> align_zero 64 w = w ++ zeros 16 /\ firstn 48 (w ++ zeros 16) = w).
+  { intros w Hw. unfold align_zero. rewrite Hw. split; [reflexivity | now apply firstn_app_exact]. }
+  destruct Hcnt as [<-|Hcnt].
+  - cbn [Z.gtb Z.compare]. destruct (Al wrap Lw) as [A1 A2]. rewrite A1. eexists. split; [reflexivity|].
+    split; [rewrite app_length, Lw; reflexivity|]. rewrite A2, Hun, Hcrc, Hctx. reflexivity.
+  - assert (Hn : In (Z.to_nat cnt) [2; 4; 8; 16]%nat /\ (cnt >? 0) = true).
+    { destruct Hcnt as [<-|[<-|[<-|[<-|[]]]]]; simpl; auto 10. }
+    destruct Hn as [Hn Hg]. rewrite Hg.
+    pose proof (swap_groups_length48 _ wrap Hn Lw) as Ls.
+    destruct (Al _ Ls) as [A1 A2]. rewrite A1. eexists. split; [reflexivity|].
+    split; [rewrite app_length, Ls; reflexivity|].
+    rewrite A2, (swap_groups_invol48 _ wrap Hn Lw), Hun, Hcrc, Hctx. reflexivity.
+Qed.
+End OtfadKeyBlob.
+
+(* ================================================================== OTFAD: the two recorded findings ==== *)
+Definition wit_blob (s e : Z) : kblob :=
+  {| kb_key := le_enc 16 1; kb_ctr := le_enc 8 2; kb_start := s; kb_end := e; kb_flags := 3;
+     kb_zero := [0; 0; 0; 0]%N; kb_crcfill := [] |}.
+
+Lemma wit_blob_wf s e : 0 <= s -> s mod 1024 = 0 -> s < e -> e <= 4294967295 -> (e mod 1024 = 0 \/ e mod 1024 = 1023) ->
+  Forall kb_wf [wit_blob s e] /\ blobs_disjoint [wit_blob s e].
+Proof.
+  intros. split.
+  - constructor; [|constructor]. unfold kb_wf. cbn. repeat split; try assumption; lia.
+  - constructor; constructor.
+Qed.
+
+(* D25: base 16- but not 1 KiB-aligned, a blob boundary inside a piece: 0x1000..0x11FF stay plain, the hardware garbles them *)
+Lemma otfad_unaligned_base_witness :
+  let blobs := [wit_blob 4096 8191] in let img := repeat 0%N 1024 in let base := 3584 in
+  exists out, otfad_encrypt_image aes_c blobs img base false = Ok out /\
+              firstn (length img) (otfad_hw aes_c (map octx_of_blob blobs) false base out) <> img.
+Proof.
+  cbv zeta. eexists. split; [vm_compute; reflexivity|].
+  intros H. apply (f_equal (fun l => nth 512 l 0%N)) in H. vm_compute in H. discriminate.
+Qed.
+
+(* F2: end address given as a multiple of 1 KiB (exclusive) and the last image byte exactly at that address *)
+Lemma otfad_end_exclusive_witness :
+  let blobs := [wit_blob 4096 8192] in let img := repeat 0%N 1025 in let base := 7168 in
+  exists out, otfad_encrypt_image aes_c blobs img base false = Ok out /\
+              firstn (length img) (otfad_hw aes_c (map octx_of_blob blobs) false base out) <> img.
+Proof.
+  cbv zeta. eexists. split; [vm_compute; reflexivity|].
+  intros H. apply (f_equal (fun l => nth 1024 l 0%N)) in H. vm_compute in H. discriminate.
+Qed.
+
+Lemma otfad_decrypts_refuted_l :
+  (exists blobs img base swap,
+     Forall kb_wf blobs /\ blobs_disjoint blobs /\ 0 <= base /\ base mod 16 = 0 /\
+     (forall k, In k blobs -> kb_end k mod 1024 = 0 -> kb_end k <> base + zlen img - 1) /\
+     exists out, otfad_encrypt_image aes_c blobs img base swap = Ok out /\
+                 firstn (length img) (otfad_hw aes_c (map octx_of_blob blobs) swap base out) <> img) /\
+  (exists blobs img base swap,
+     Forall kb_wf blobs /\ blobs_disjoint blobs /\ 0 <= base /\ base mod 1024 = 0 /\
+     exists out, otfad_encrypt_image aes_c blobs img base swap = Ok out /\
+                 firstn (length img) (otfad_hw aes_c (map octx_of_blob blobs) swap base out) <> img).
+Proof.
+  split.
+  - exists [wit_blob 4096 8191], (repeat 0%N 1024), 3584, false.
+    destruct (wit_blob_wf 4096 8191 ltac:(lia) ltac:(reflexivity) ltac:(lia) ltac:(lia) ltac:(right; reflexivity)) as [W D].
+    repeat split; try assumption; try lia; try reflexivity.
+    + intros k [<-|[]] Hk. cbn in Hk. discriminate.
+    + exact otfad_unaligned_base_witness.
+  - exists [wit_blob 4096 8192], (repeat 0%N 1025), 7168, false.
+    destruct (wit_blob_wf 4096 8192 ltac:(lia) ltac:(reflexivity) ltac:(lia) ltac:(lia) ltac:(left; reflexivity)) as [W D].
+    repeat split; try assumption; try lia; try reflexivity.
+    exact otfad_end_exclusive_witness.
+Qed.
+
+(* ================================================================== "address only" instances ========== *)
+Lemma otfad_address_only_l (E : cipher) blobs swap base x y q :
+  length x = (q * 1024)%nat ->
+  otfad_encrypt_image E blobs (x ++ y) base swap =
+  match otfad_encrypt_image E blobs x base swap with
+  | Ok cx => match otfad_encrypt_image E blobs y (base + zlen x) swap with Ok cy => Ok (cx ++ cy) | Err k => Err k end
+  | Err k => Err k
+  end.
+Proof. intros H. unfold otfad_encrypt_image, U1K. apply (walk_address_only_l _ 1024 q); [lia | exact H]. Qed.
+
+Lemma otfad_hw_block_outside (E : cipher) blobs swap a c :
+  Forall kb_wf blobs -> blobs_disjoint blobs -> otfad_outside blobs a ->
+  otfad_hw_block E (map octx_of_blob blobs) swap a c = c.
+Proof.
+  intros W D HQ. rewrite otfad_hw_block_sel by assumption.
+  destruct (find (fun k => kb_covers k a) blobs) as [k|] eqn:Ef; [|reflexivity].
+  destruct (find_some _ _ Ef) as [Hin Hc]. now rewrite (HQ k Hin Hc).
+Qed.
+
+Lemma otfad_keyblob_unwrap_full (E D : cipher) kek k cnt :
+  (forall b, okb b -> D kek (E kek b) = b) -> (forall b, okb b -> okb (E kek b)) ->
+  kb_codec_wf k -> length kek = 16%nat -> In cnt [0; 2; 4; 8; 16] ->
+  exists rec c, kb_export E k kek cnt = Ok rec /\ length rec = 64%nat /\ otfad_unwrap D kek cnt rec = Some c /\
+                oc_key c = kb_key k /\ oc_ctr c = kb_ctr k /\ oc_w0 c = kb_start k /\
+                Z.shiftr (oc_w1 c) 10 = (kb_end k - 1) / 1024 /\
+                (forall n, 0 <= n < 3 -> Z.testbit (oc_w1 c) n = Z.testbit (kb_flags k) n).
+Proof.
+  intros DE Eok Wc Lk Hc.
+  destruct (otfad_keyblob_unwrap_l E D kek DE Eok k cnt Wc Lk Hc) as (rec & H1 & H2 & H3).
+  exists rec, (octx_of_blob k). destruct Wc as (W & _).
+  repeat split; try assumption; try reflexivity.
+  - now apply ef_shift.
+  - intros n Hn. now apply ef_bit.
+Qed.
+
+(* ================================================================== IEE =============================== *)
+Lemma blob_fold_sel {B} (M C : B -> bool) (enc : B -> res (list N)) L (blobs : list B) r :
+  (forall k, In k blobs -> M k = C k) ->
+  ForallOrdPairs (fun k1 k2 => C k1 = true -> C k2 = false) blobs ->
+  blob_fold M enc L blobs r =
+  match find C blobs with
+  | Some k => match enc k with Ok d => Ok (d ++ skipn L r) | Err e => Err e end
+  | None => Ok r
+  end.
+Proof.
+  revert r. induction blobs as [|k l IH]; intros r HM D; [reflexivity|].
+  inversion D as [|? ? Dk Dl]; subst. cbn [blob_fold find].
+  rewrite (HM k (or_introl eq_refl)). destruct (C k) eqn:Ec.
+  - destruct (enc k); [|reflexivity]. apply blob_fold_nomatch.
+    intros k' Hk'. rewrite (HM k' (or_intror Hk')). rewrite Forall_forall in Dk. now apply Dk.
+  - apply IH; [|assumption]. intros k' Hk'. apply HM. now right.
+Qed.
+
+Lemma word_rev_fuel fuel l : concat (map (@rev N) (chunks_fuel fuel 4 l)) = rev_longs_fuel fuel l.
+Proof.
+  revert l. induction fuel as [|f IH]; intros l; [reflexivity|].
+  cbn [chunks_fuel rev_longs_fuel]. destruct l as [|b l]; [reflexivity|].
+  cbn [map concat]. now rewrite IH.
+Qed.
+Lemma reverse_bytes_in_longs_word_rev l : Nat.modulo (length l) 4 = 0%nat -> reverse_bytes_in_longs l = Ok (word_rev l).
+Proof.
+  intros H. unfold reverse_bytes_in_longs, word_rev, chunks. rewrite H. cbn [Nat.eqb]. now rewrite word_rev_fuel.
+Qed.
+
+Lemma walk_shift {A} (f : Z -> list N -> A) u fuel delta : forall a d,
+  walk f u fuel (a + delta) d = walk (fun x => f (x + delta)) u fuel a d.
+Proof.
+  induction fuel as [|fu IH]; intros a d; [reflexivity|].
+  cbn [walk]. destruct d as [|b d]; [reflexivity|]. f_equal.
+  rewrite <- IH. f_equal. lia.
+Qed.
+Lemma pieces_shift {A} (f : Z -> list N -> A) u delta a d :
+  pieces f u (a + delta) d = pieces (fun x => f (x + delta)) u a d.
+Proof. apply walk_shift. Qed.
+
+Lemma ib_matches_covers b a L : ib_wf b -> a mod 4096 = 0 -> 1 <= L <= 4096 ->
+  ib_matches b a (a + L) = ib_covers b a.
+Proof.
+  intros (H0 & H1 & H2 & H3 & H4 & _) Ha HL. unfold ib_matches, ib_contains, ib_covers.
+  apply eq_true_iff_eq. rewrite !andb_true_iff, !Z.leb_le, Z.ltb_lt. lia.
+Qed.
+
+Lemma find_map {A B} (f : A -> B) (P : B -> bool) l : find P (map f l) = option_map f (find (fun x => P (f x)) l).
+Proof. induction l as [|x l IH]; [reflexivity|]. cbn [map find]. destruct (P (f x)); [reflexivity | exact IH]. Qed.
+
+Lemma okblock_okb x : okblock x <-> okb x.
+Proof. reflexivity. Qed.
+
+Lemma pad16_wf p : wf_bytes p -> wf_bytes (pad16 p).
+Proof.
+  intros W. destruct (pad16_cases p) as [[-> _]|(k & _ & -> & _)]; [assumption|].
+  apply wf_bytes_app; [assumption|]. unfold wf_bytes, zeros. apply Forall_forall. intros x Hx.
+  apply repeat_spec in Hx. subst. unfold wf_byte. lia.
+Qed.
+
+Lemma le_enc16_okb n : okb (le_enc 16 n).
+Proof. split; [apply le_enc_length | apply le_enc_wf]. Qed.
+
+Lemma iblobs_disjoint_at blobs a : iblobs_disjoint blobs ->
+  ForallOrdPairs (fun b1 b2 => ib_covers b1 a = true -> ib_covers b2 a = false) blobs.
+Proof.
+  induction 1 as [|b l Hb Hl IH]; constructor; [|assumption].
+  eapply Forall_impl; [|exact Hb]. intros b2 H. apply H.
+Qed.
+
+Section IeeImage.
+Variable E D : cipher.
+Variable blobs : list iblob.
+Hypothesis W : Forall ib_wf blobs.
+Hypothesis Dj : iblobs_disjoint blobs.
+Hypothesis CO : Forall (ib_cipher_ok E D) blobs.
+Variable top : Z.
+Hypothesis NO : Forall (fun b => ib_no_ctr_overflow b top) blobs.
+
+Definition iee_hu := iee_hw_unit E D (map ictx_of_blob blobs).
+
+Lemma iee_piece_sel a p : a mod 4096 = 0 -> p <> [] -> (length p <= 4096)%nat ->
+  iee_piece E blobs a p =
+  match find (fun b => ib_covers b a) blobs with
+  | Some b => ib_encrypt_image E b a p
+  | None => Ok p
+  end.
+Proof.
+  intros Ha Hp Hl. unfold iee_piece.
+  assert (HL : 1 <= zlen p <= 4096) by (unfold zlen; destruct p; [congruence | simpl length in *; lia]).
+  rewrite (blob_fold_sel _ (fun b => ib_covers b a)).
+  - destruct (find (fun b => ib_covers b a) blobs) as [b|]; [|reflexivity].
+    destruct (ib_encrypt_image E b a p); [|reflexivity]. now rewrite skipn_all, app_nil_r.
+  - intros b Hb. rewrite Forall_forall in W. now apply ib_matches_covers; [apply W| |].
+  - now apply iblobs_disjoint_at.
+Qed.
+
+Lemma iee_hu_sel a c :
+  iee_hu a c =
+  match find (fun b => ib_covers b a) blobs with
+  | Some b => iee_hw_unit E D [ictx_of_blob b] a c
+  | None => c
+  end.
+Proof.
+  unfold iee_hu, iee_hw_unit. rewrite find_map. cbn [find].
+  change (fun x : iblob => ic_hit (ictx_of_blob x) a) with (fun b => ib_covers b a).
+  destruct (find (fun b => ib_covers b a) blobs) as [b|] eqn:Ef; [|reflexivity].
+  cbn [option_map]. destruct (find_some _ _ Ef) as [_ Hc].
+  change (ic_hit (ictx_of_blob b) a) with (ib_covers b a). now rewrite Hc.
+Qed.
+
+(* XTS sector *)
+Lemma iee_xts_piece b a p :
+  In b blobs -> ib_mode b = MODE_XTS -> 0 <= a -> a mod 4096 = 0 -> ib_covers b a = true ->
+  p <> [] -> (length p <= 4096)%nat -> wf_bytes p ->
+  exists c, ib_encrypt_image E b a p = Ok c /\ length c = length (pad16 p) /\
+            iee_hw_unit E D [ictx_of_blob b] a c = pad16 p.
+Proof.
+  intros Hin Hm Ha Hal Hcov Hp Hl Wp.
+  rewrite Forall_forall in W, CO. pose proof (W b Hin) as (H0 & H1 & H2 & H3 & H4 & K1 & K2 & _).
+  pose proof (CO b Hin) as Hco. unfold ib_cipher_ok in Hco. rewrite Hm, Z.eqb_refl in Hco.
+  destruct Hco as (DE & E1 & E2).
+  set (d := pad16 p).
+  assert (Hd0 : d <> []) by now apply pad16_nonnil.
+  assert (Hd2 : (length d <= 4096)%nat) by (apply pad16_le; [assumption | reflexivity]).
+  assert (Hd3 : Nat.modulo (length d) 16 = 0%nat) by apply pad16_length_mod.
+  assert (Hd4 : (16 <= length d)%nat).
+  { destruct (mod_mult_exists _ 16 ltac:(lia) Hd3) as [q Hq]. destruct q; [|lia].
+    destruct d; [congruence | simpl in Hq; lia]. }
+  assert (Wd : wf_bytes d) by now apply pad16_wf.
+  assert (Htw : iee_tweak a = le_enc 16 (Z.to_N (a / 4096))).
+  { unfold iee_tweak. rewrite Z.shiftr_div_pow2 by lia. reflexivity. }
+  assert (Hokt : okb (E (word_rev (ib_key2 b)) (le_enc 16 (Z.to_N (a / 4096))))) by (apply E2, le_enc16_okb).
+  unfold ib_encrypt_image.
+  replace (a mod 16 =? 0) with true by (symmetry; apply Z.eqb_eq; lia). cbn [negb]. fold d.
+  assert (Hctr : mode_is_ctr (ib_mode b) = false) by (rewrite Hm; reflexivity). rewrite Hctr.
+  unfold ib_encrypt_xts. rewrite !reverse_bytes_in_longs_word_rev by assumption.
+  rewrite pieces_single by (unfold U4K; try assumption; lia). cbn [concat]. rewrite app_nil_r, Htw.
+  eexists. split; [reflexivity|]. split.
+  - apply (xts_enc_length (E (word_rev (ib_key1 b))) E1); assumption.
+  - unfold iee_hw_unit. cbn [find]. change (ic_hit (ictx_of_blob b) a) with (ib_covers b a). rewrite Hcov.
+    cbn [ictx_of_blob ic_mode ic_key1 ic_key2]. rewrite Hm, Z.eqb_refl.
+    apply (xts_dec_enc_l (E (word_rev (ib_key1 b))) (D (word_rev (ib_key1 b))) DE E1); assumption.
+Qed.
+(* AES-CTR with address binding *)
+Lemma iee_ctr_piece b a p :
+  In b blobs -> ib_mode b = MODE_CTR_ADDR -> 0 <= a -> a mod 4096 = 0 -> ib_covers b a = true ->
+  p <> [] -> (length p <= 4096)%nat -> a + zlen p <= top ->
+  exists c, ib_encrypt_image E b a p = Ok c /\ length c = length (pad16 p) /\
+            iee_hw_unit E D [ictx_of_blob b] a c = pad16 p.
+Proof.
+  intros Hin Hm Ha Hal Hcov Hp Hl Htop.
+  rewrite Forall_forall in W, CO, NO. pose proof (W b Hin) as (H0 & H1 & H2 & H3 & H4 & K1 & K2 & Hmode).
+  destruct Hmode as [Hx|[_ L2]]; [rewrite Hx in Hm; discriminate|].
+  pose proof (CO b Hin) as Elen. unfold ib_cipher_ok in Elen. rewrite Hm in Elen.
+  change (MODE_CTR_ADDR =? MODE_XTS) with false in Elen.
+  pose proof (NO b Hin Hm) as Hno.
+  set (d := pad16 p).
+  assert (Hd0 : d <> []) by now apply pad16_nonnil.
+  assert (Hd1 : (length p <= length d)%nat) by apply pad16_length_ge.
+  assert (Hd2 : (length d <= 4096)%nat) by (apply pad16_le; [assumption | reflexivity]).
+  assert (Hd3 : Nat.modulo (length d) 16 = 0%nat) by apply pad16_length_mod.
+  destruct (mod_mult_exists _ 16 ltac:(lia) Hd3) as [q Hq].
+  assert (Hd5 : (length d < length p + 16)%nat).
+  { unfold d. destruct (pad16_cases p) as [[-> _]|(k & Hk & -> & _)]; [lia|]. rewrite app_length, zeros_length. lia. }
+  set (nonce := word_rev (ib_key2 b)).
+  assert (Ln : length nonce = 16%nat).
+  { unfold nonce. pose proof (reverse_bytes_in_longs_word_rev _ K2) as Hr.
+    unfold reverse_bytes_in_longs in Hr. rewrite K2 in Hr. cbn [Nat.eqb] in Hr. injection Hr as <-.
+    rewrite rev_longs_length by lia. exact L2. }
+  set (n0 := Z.of_N (be_dec (skipn 12 nonce))).
+  assert (Hn0 : 0 <= n0) by (unfold n0; lia).
+  unfold ib_covers in Hcov. apply andb_true_iff in Hcov. destruct Hcov as [Hc1 Hc2].
+  apply Z.leb_le in Hc1. apply Z.ltb_lt in Hc2.
+  assert (Hsh : Z.shiftr a 4 = a / 16) by (rewrite Z.shiftr_div_pow2 by lia; reflexivity).
+  assert (Hbound : n0 + a / 16 + Z.of_nat q <= 4294967296).
+  { fold nonce in Hno. fold n0 in Hno. unfold zlen in Htop. 
+    assert (a + Z.of_nat (length d) <= Z.min (top + 15) (ib_end b)) by lia.
+    assert ((a + Z.of_nat (length d)) / 16 <= Z.min (top + 15) (ib_end b) / 16) by (apply Z.div_le_mono; lia).
+    replace ((a + Z.of_nat (length d)) / 16) with (a / 16 + Z.of_nat q) in H5 by lia. lia. }
+  unfold ib_encrypt_image.
+  replace (a mod 16 =? 0) with true by (symmetry; apply Z.eqb_eq; lia). cbn [negb]. fold d.
+  assert (Hctr : mode_is_ctr (ib_mode b) = true) by (rewrite Hm; reflexivity). rewrite Hctr.
+  unfold ib_encrypt_ctr. rewrite !reverse_bytes_in_longs_word_rev by assumption. fold nonce.
+  rewrite Ln. cbn [Nat.eqb negb]. fold n0. rewrite Hsh.
+  replace ((zlen d + 15) / 16) with (Z.of_nat q) by (unfold zlen; lia).
+  replace ((0 <? Z.of_nat q) && (n0 + a / 16 + Z.of_nat q - 1 >=? M32)) with false.
+  2:{ symmetry. apply andb_false_iff. right. rewrite Z.geb_leb. apply Z.leb_gt. unfold M32. lia. }
+  set (key := word_rev (ib_key1 b)) in *.
+  replace (16 * (n0 + a / 16)) with (a + 16 * n0) by lia.
+  rewrite pieces_shift.
+  destruct (pieces_inverse
+              (fun x => ib_ctr_block (E key) (firstn 12 nonce) (x + 16 * n0))
+              (fun ba blk => xor_bytes blk (E key (firstn 12 nonce ++ be32 ((n0 + ba / 16) mod M32))))
+              16 q a d ltac:(lia) Hq) as [Inv Len].
+  { intros j blk Hj Hb. unfold ib_ctr_block.
+    replace ((a + Z.of_nat (j * 16) + 16 * n0) / 16) with (n0 + a / 16 + Z.of_nat j) by lia.
+    replace ((n0 + (a + Z.of_nat (j * 16)) / 16) mod M32) with (n0 + a / 16 + Z.of_nat j)
+      by (unfold M32; rewrite Z.mod_small; lia).
+    assert (Lks : length (E key (firstn 12 nonce ++ be32 (n0 + a / 16 + Z.of_nat j))) = 16%nat).
+    { apply Elen. rewrite app_length, firstn_length, be32_length, Ln. reflexivity. }
+    split; [rewrite xor_bytes_length_min, Hb, Lks; reflexivity|].
+    apply xor_bytes_cancel. rewrite Hb, Lks. auto. }
+  eexists. split; [reflexivity|]. split; [exact Len|].
+  unfold iee_hw_unit, ic_hit, ictx_of_blob. cbn [find ic_start ic_end ic_mode ic_key1 ic_key2].
+  replace ((ib_start b <=? a) && (a <? ib_end b)) with true
+    by (symmetry; apply andb_true_iff; split; [apply Z.leb_le | apply Z.ltb_lt]; assumption).
+  rewrite Hm. change (MODE_CTR_ADDR =? MODE_XTS) with false. rewrite Z.eqb_refl.
+  fold nonce. fold n0. fold key. exact Inv.
+Qed.
+
+Lemma iee_rt_id a p : p <> [] -> (length p <= 4096)%nat -> iee_hu a p = p ->
+  rt_piece iee_hu 4096 (iee_outside blobs) a p p.
+Proof. intros Hp Hl Hh. unfold rt_piece. rewrite Hh. repeat split; try lia; auto. apply firstn_all. Qed.
+
+Lemma iee_piece_ok a p :
+  0 <= a -> a mod 4096 = 0 -> p <> [] -> (length p <= 4096)%nat -> wf_bytes p -> a + zlen p <= top ->
+  exists c, iee_piece E blobs a p = Ok c /\ rt_piece iee_hu 4096 (iee_outside blobs) a p c.
+Proof.
+  intros Ha Hal Hp Hl Wp Htop.
+  rewrite iee_piece_sel by assumption.
+  destruct (find (fun b => ib_covers b a) blobs) as [b|] eqn:Ef.
+  2:{ exists p. split; [reflexivity|]. apply iee_rt_id; try assumption. rewrite iee_hu_sel. now rewrite Ef. }
+  destruct (find_some _ _ Ef) as [Hin Hcov].
+  assert (Hcase : exists c, ib_encrypt_image E b a p = Ok c /\ length c = length (pad16 p) /\
+                            iee_hw_unit E D [ictx_of_blob b] a c = pad16 p).
+  { pose proof (proj1 (Forall_forall _ _) W b Hin) as (_ & _ & _ & _ & _ & _ & _ & Hmode).
+    destruct Hmode as [Hm|[Hm _]]; [now apply iee_xts_piece | now apply iee_ctr_piece]. }
+  destruct Hcase as (c & Hc & Lc & Hh). exists c. split; [exact Hc|].
+  assert (Hhu : iee_hu a c = pad16 p) by (rewrite iee_hu_sel, Ef; exact Hh).
+  pose proof (pad16_length_ge p) as Hpg. pose proof (pad16_le p 4096 Hl eq_refl) as Hpl.
+  unfold rt_piece. rewrite Hhu, Lc. repeat split; try lia.
+  - apply pad16_prefix.
+  - intros i Hi HQ. exfalso.
+    assert (Hcv : ib_covers b (a + Z.of_nat i) = true).
+    { pose proof (proj1 (Forall_forall _ _) W b Hin) as (H0 & H1 & H2 & H3 & H4 & _).
+      unfold ib_covers in *. apply andb_true_iff in Hcov. destruct Hcov as [C1 C2].
+      apply Z.leb_le in C1. apply Z.ltb_lt in C2. apply andb_true_iff. split; [apply Z.leb_le | apply Z.ltb_lt]; lia. }
+    rewrite (HQ b Hin) in Hcv. discriminate.
+Qed.
+End IeeImage.
+
+(* the whole image at a 4 KiB-aligned address *)
+Lemma iee_decrypts_aligned (E D : cipher) blobs img base :
+  Forall ib_wf blobs -> iblobs_disjoint blobs -> Forall (ib_cipher_ok E D) blobs ->
+  Forall (fun b => ib_no_ctr_overflow b (base + zlen img)) blobs ->
+  wf_bytes img -> 0 <= base -> base mod 4096 = 0 ->
+  exists out, iee_encrypt_image E blobs img base = Ok out /\
+              (length img <= length out)%nat /\
+              firstn (length img) (iee_hw E D (map ictx_of_blob blobs) base out) = img /\
+              (forall i, (i < length img)%nat -> iee_outside blobs (base + Z.of_nat i) -> nth i out 0%N = nth i img 0%N).
+Proof.
+  intros W Dj CO NO Wi Hb Hal.
+  destruct (walk_roundtrip (iee_piece E blobs) (iee_hu E D blobs) 4096 (fun a => 0 <= a /\ a mod 4096 = 0)
+              (base + zlen img) (iee_outside blobs) wf_bytes wf_bytes_firstn wf_bytes_skipn ltac:(lia))
+    with (base := base) (data := img)
+    as (out & Ho & R1 & R2 & R3); try (split; assumption); try reflexivity; try assumption.
+  - intros a [A1 A2]. split; lia.
+  - intros a p [A1 A2] Hp Hl Htop Hlast Wp. now apply (iee_piece_ok E D blobs W Dj CO (base + zlen img) NO).
+  - exists out. unfold iee_encrypt_image, iee_hw, U4K. repeat split; assumption.
+Qed.
+
+(* ---------------- IEE: the two recorded findings ---------------- *)
+Definition iee_wit (mode : Z) (key2 : list N) : iblob :=
+  {| ib_lock := 89; ib_keyattr := 90; ib_mode := mode; ib_start := 4096; ib_end := 8192;
+     ib_key1 := le_enc 16 1; ib_key2 := key2; ib_po := 0 |}.
+
+(* Bypass mode: SPSDK encrypts (with AES-XTS) a region that the hardware passes through unchanged *)
+Lemma iee_bypass_refuted_l :
+  exists b img base, ib_mode b = MODE_BYPASS /\ base mod 4096 = 0 /\ ib_covers b base = true /\
+    exists out, iee_encrypt_image aes_c [b] img base = Ok out /\
+                iee_hw aes_c aes_d [ictx_of_blob b] base out = out /\ firstn (length img) out <> img.
+Proof.
+  exists (iee_wit MODE_BYPASS (le_enc 16 2)), (repeat 0%N 16), 4096.
+  split; [reflexivity|]. split; [reflexivity|]. split; [reflexivity|].
+  eexists. split; [vm_compute; reflexivity|]. split; [vm_compute; reflexivity|].
+  intros H. vm_compute in H. discriminate.
+Qed.
+
+(* AES-CTR: an initial counter word near 2^32 makes Counter.value raise OverflowError although the 32-bit hardware
+   counter simply wraps *)
+Lemma iee_ctr_total_refuted_l :
+  exists b img base, ib_wf b /\ ib_mode b = MODE_CTR_ADDR /\ base mod 4096 = 0 /\
+    iee_encrypt_image aes_c [b] img base = Err 2.
+Proof.
+  exists (iee_wit MODE_CTR_ADDR (repeat 255%N 16)), (repeat 0%N 16), 4096.
+  split; [|split; [reflexivity|split; [reflexivity|vm_compute; reflexivity]]].
+  unfold ib_wf, iee_wit. cbn. repeat split; lia.
+Qed.
+
+Lemma iee_address_only_l (E : cipher) blobs base x y q :
+  length x = (q * 4096)%nat ->
+  iee_encrypt_image E blobs (x ++ y) base =
+  match iee_encrypt_image E blobs x base with
+  | Ok cx => match iee_encrypt_image E blobs y (base + zlen x) with Ok cy => Ok (cx ++ cy) | Err k => Err k end
+  | Err k => Err k
+  end.
+Proof. intros H. unfold iee_encrypt_image, U4K. apply (walk_address_only_l _ 4096 q); [lia | exact H]. Qed.
+
+
+(* ================================================================== BEE =============================== *)
+Local Open Scope N_scope.
+Lemma le_dec_app a b : le_dec (a ++ b) = le_dec a + 2 ^ (8 * N.of_nat (length a)) * le_dec b.
+Proof.
+  induction a as [|x a IH]; [cbn [app le_dec length N.of_nat]; rewrite N.mul_0_r; change (2 ^ 0) with 1; lia|].
+  cbn [app le_dec length]. rewrite IH.
+  replace (8 * N.of_nat (S (length a))) with (8 + 8 * N.of_nat (length a)) by lia.
+  rewrite N.pow_add_r. change (2 ^ 8) with 256. lia.
+Qed.
+
+Lemma le_enc_add_high w a b : le_enc w (a + 2 ^ (8 * N.of_nat w) * b) = le_enc w a.
+Proof.
+  revert a b. induction w as [|w IH]; intros a b; [reflexivity|].
+  cbn [le_enc].
+  replace (8 * N.of_nat (S w)) with (8 + 8 * N.of_nat w) by lia.
+  rewrite N.pow_add_r. change (2 ^ 8) with 256.
+  replace (a + 256 * 2 ^ (8 * N.of_nat w) * b) with (a + (2 ^ (8 * N.of_nat w) * b) * 256) by lia.
+  rewrite N.mod_add by lia. rewrite N.div_add by lia. now rewrite IH.
+Qed.
+
+Lemma le_enc_app w1 w2 n : le_enc (w1 + w2) n = le_enc w1 n ++ le_enc w2 (n / 2 ^ (8 * N.of_nat w1)).
+Proof.
+  revert n. induction w1 as [|w1 IH]; intros n.
+  - simpl. now rewrite N.div_1_r.
+  - cbn [plus le_enc app]. rewrite IH. f_equal. f_equal.
+    replace (8 * N.of_nat (S w1)) with (8 + 8 * N.of_nat w1) by lia.
+    rewrite N.pow_add_r. change (2 ^ 8) with 256. now rewrite N.div_div by (try apply N.pow_nonzero; lia).
+Qed.
+
+(* the 128-bit big-endian increment of `cryptography` only touches the low word while it does not wrap *)
+Lemma inc_be_low x m : length x = 12%nat -> wf_bytes x -> m + 1 < 4294967296 ->
+  inc_be (x ++ be_enc 4 m) = x ++ be_enc 4 (m + 1).
+Proof.
+  intros Lx Wx Hm. unfold inc_be. rewrite app_length, be_enc_length, Lx.
+  change (12 + 4)%nat with (4 + 12)%nat.
+  unfold be_enc at 1, be_dec. rewrite rev_app_distr. unfold be_enc at 1. rewrite rev_involutive.
+  rewrite le_dec_app, le_enc_length.
+  rewrite le_dec_enc_small by (change (2 ^ (8 * N.of_nat 4)) with 4294967296; lia).
+  change (2 ^ (8 * N.of_nat 4)) with 4294967296.
+  rewrite le_enc_app. rewrite rev_app_distr.
+  change (2 ^ (8 * N.of_nat 4)) with 4294967296.
+  replace (m + 4294967296 * le_dec (rev x) + 1) with ((m + 1) + 4294967296 * le_dec (rev x)) by lia.
+  f_equal.
+  - replace ((m + 1 + 4294967296 * le_dec (rev x)) / 4294967296) with (le_dec (rev x)).
+    + change (le_dec (rev x)) with (be_dec x). change (rev (le_enc 12 (be_dec x))) with (be_enc 12 (be_dec x)).
+      rewrite <- Lx. now apply be_enc_dec.
+    + rewrite N.mul_comm, N.div_add by lia. rewrite N.div_small by lia. reflexivity.
+  - change 4294967296 with (2 ^ (8 * N.of_nat 4)). rewrite le_enc_add_high. reflexivity.
+Qed.
+Local Close Scope N_scope.
+
+Lemma ctr_xcrypt_nil F c : ctr_xcrypt F c [] = [].
+Proof. reflexivity. Qed.
+
+Lemma ctr_xcrypt_cons F c b d : length b = 16%nat ->
+  ctr_xcrypt F c (b ++ d) = xor_bytes b (F c) ++ ctr_xcrypt F (inc_be c) d.
+Proof. intros Hb. unfold ctr_xcrypt, BS. rewrite chunks_cons by (try assumption; lia). reflexivity. Qed.
+
+(* AES-CTR of `cryptography` over whole blocks = one keystream block per 16-byte address step *)
+Lemma ctr_xcrypt_pieces (F : list N -> list N) n12 q : forall n d,
+  length n12 = 12%nat -> wf_bytes n12 -> length d = (q * 16)%nat -> 0 <= n -> n + Z.of_nat q <= 4294967296 ->
+  ctr_xcrypt F (n12 ++ be32 n) d =
+  concat (pieces (fun x blk => xor_bytes blk (F (n12 ++ be32 (x / 16)))) 16 (16 * n) d).
+Proof.
+  induction q as [|q IH]; intros n d L12 W12 Hd Hn Hq.
+  - destruct d; [reflexivity | simpl in Hd; lia].
+  - assert (Hdl : (16 <= length d)%nat) by (simpl in Hd; lia).
+    assert (Hne : d <> []) by (intros ->; simpl in Hdl; lia).
+    rewrite (pieces_cons _ 16 (16 * n) d) by (try assumption; lia).
+    assert (Hf : length (firstn 16 d) = 16%nat) by (rewrite firstn_length; lia).
+    rewrite <- (firstn_skipn 16 d) at 1. rewrite ctr_xcrypt_cons by assumption.
+    cbn [concat]. replace (16 * n / 16) with n by lia. f_equal.
+    replace (zlen (firstn 16 d)) with 16 by (unfold zlen; rewrite Hf; reflexivity).
+    replace (16 * n + 16) with (16 * (n + 1)) by lia.
+    destruct q as [|q'].
+    + assert (Hs : skipn 16 d = []) by (apply length_zero_iff_nil; rewrite skipn_length; simpl in Hd; lia).
+      rewrite Hs. reflexivity.
+    + unfold be32. rewrite inc_be_low; try assumption; try lia.
+      replace (Z.to_N n + 1)%N with (Z.to_N (n + 1)) by lia.
+      apply IH; try assumption; try lia. rewrite skipn_length. simpl in Hd |- *. lia.
+Qed.
+
+Lemma pad16_rnd_cases l : (pad16_rnd l = l /\ Nat.modulo (length l) 16 = 0%nat) \/
+                          (exists k, (0 < k < 16)%nat /\ pad16_rnd l = l ++ rnd k /\ Nat.modulo (length l + k) 16 = 0%nat).
+Proof.
+  unfold pad16_rnd. destruct (Nat.modulo (length l) 16) eqn:E; [left; auto|].
+  right. exists (16 - S n)%nat.
+  pose proof (Nat.mod_upper_bound (length l) 16 ltac:(lia)) as Hb.
+  pose proof (Nat.div_mod (length l) 16 ltac:(lia)) as Hd.
+  repeat split; try lia.
+  replace (length l + (16 - S n))%nat with ((length l / 16 + 1) * 16)%nat by lia.
+  apply Nat.mod_mul. lia.
+Qed.
+Lemma rnd_length k : length (rnd k) = k.
+Proof. unfold rnd. now rewrite map_length, seq_length. Qed.
+Lemma pad16_rnd_length_ge l : (length l <= length (pad16_rnd l))%nat.
+Proof. destruct (pad16_rnd_cases l) as [[-> _]|(k & _ & -> & _)]; [lia|]. rewrite app_length. lia. Qed.
+Lemma pad16_rnd_length_mod l : Nat.modulo (length (pad16_rnd l)) 16 = 0%nat.
+Proof. destruct (pad16_rnd_cases l) as [[-> H]|(k & _ & -> & H)]; [exact H|]. now rewrite app_length, rnd_length. Qed.
+Lemma pad16_rnd_prefix l : firstn (length l) (pad16_rnd l) = l.
+Proof.
+  destruct (pad16_rnd_cases l) as [[-> _]|(k & _ & -> & _)]; [apply firstn_all|].
+  rewrite firstn_app, Nat.sub_diag, firstn_all. simpl. apply app_nil_r.
+Qed.
+Lemma pad16_rnd_le l m : (length l <= m)%nat -> Nat.modulo m 16 = 0%nat -> (length (pad16_rnd l) <= m)%nat.
+Proof.
+  intros Hl Hm. destruct (pad16_rnd_cases l) as [[-> _]|(k & Hk & -> & H)]; [lia|].
+  rewrite app_length, rnd_length.
+  pose proof (Nat.div_mod m 16 ltac:(lia)). pose proof (Nat.div_mod (length l + k) 16 ltac:(lia)).
+  destruct (Nat.le_gt_cases (length l + k) m); [assumption|]. exfalso.
+  assert ((length l + k) / 16 <= m / 16)%nat by (apply Nat.div_le_mono; lia). nia.
+Qed.
+
+(* hull of the FAC regions *)
+Lemma fold_min_le_init fs : forall m, fold_left (fun m f => Z.min m (fc_start f)) fs m <= m.
+Proof. induction fs as [|f fs IH]; intros m; simpl; [lia|]. specialize (IH (Z.min m (fc_start f))). lia. Qed.
+Lemma fold_min_le fs f : In f fs -> forall m, fold_left (fun m f => Z.min m (fc_start f)) fs m <= fc_start f.
+Proof.
+  induction fs as [|g fs IH]; intros Hin m; [contradiction|]. simpl. destruct Hin as [->|Hin].
+  - pose proof (fold_min_le_init fs (Z.min m (fc_start f))). lia.
+  - now apply IH.
+Qed.
+Lemma fold_max_ge_init fs : forall m, m <= fold_left (fun m f => Z.max m (fc_end f)) fs m.
+Proof. induction fs as [|f fs IH]; intros m; simpl; [lia|]. specialize (IH (Z.max m (fc_end f))). lia. Qed.
+Lemma fold_max_ge fs f : In f fs -> forall m, fc_end f <= fold_left (fun m f => Z.max m (fc_end f)) fs m.
+Proof.
+  induction fs as [|g fs IH]; intros Hin m; [contradiction|]. simpl. destruct Hin as [->|Hin].
+  - pose proof (fold_max_ge_init fs (Z.max m (fc_end f))). lia.
+  - now apply IH.
+Qed.
+
+Lemma find_existsb {A} (P : A -> bool) l : existsb P l = true -> exists x, find P l = Some x.
+Proof.
+  induction l as [|x l IH]; [discriminate|]. cbn [existsb find]. destruct (P x); [eauto | exact IH].
+Qed.
+Lemma find_none_existsb {A} (P : A -> bool) l : existsb P l = false -> find P l = None.
+Proof.
+  induction l as [|x l IH]; [reflexivity|]. cbn [existsb find]. destruct (P x); [discriminate | exact IH].
+Qed.
+
+Lemma bee_block_uncovered (E : cipher) h a data :
+  bh_wf h -> bh_covers h a = false -> (length data <= 1024)%nat -> bee_encrypt_block E h a data = Ok data.
+Proof.
+  intros (Hm & Lk & _) Hc Hl. unfold bee_encrypt_block.
+  replace (Nat.ltb 1024 (length data)) with false by (symmetry; apply Nat.ltb_ge; assumption).
+  destruct (bh_hull h) as [hs he]. destruct ((hs <=? a) && (a <? he)); [|reflexivity].
+  rewrite Hm, Lk. cbn [Z.eqb Pos.eqb Nat.eqb negb].
+  unfold bh_covers in Hc. pose proof (find_none_existsb _ _ Hc) as Hf. unfold fac_covers in Hf. rewrite Hf. reflexivity.
+Qed.
+
+Lemma bee_block_covered (E : cipher) h a data :
+  bh_wf h -> bh_covers h a = true -> 0 <= a -> a mod 1024 = 0 -> (length data <= 1024)%nat ->
+  bee_encrypt_block E h a data =
+  Ok (ctr_xcrypt (E (bh_swkey h)) (firstn 12 (bh_counter h) ++ be32 (a / 16)) (pad16_rnd data)).
+Proof.
+  intros (Hm & Lk & Lc & Wc & Hz & Wf) Hc Ha Hal Hl. unfold bee_encrypt_block.
+  replace (Nat.ltb 1024 (length data)) with false by (symmetry; apply Nat.ltb_ge; assumption).
+  unfold bh_covers in Hc. destruct (find_existsb _ _ Hc) as [f Hf].
+  destruct (find_some _ _ Hf) as [Hin Hcov].
+  rewrite Forall_forall in Wf. pose proof (Wf f Hin) as (F0 & F1 & F2 & F3 & F4).
+  unfold fac_covers in Hcov. apply andb_true_iff in Hcov. destruct Hcov as [C1 C2].
+  apply Z.leb_le in C1. apply Z.ltb_lt in C2. unfold fc_end in *.
+  assert (Hhull : let '(hs, he) := bh_hull h in (hs <=? a) && (a <? he) = true).
+  { unfold bh_hull. destruct (bh_facs h) as [|g fs] eqn:Efs; [contradiction|].
+    pose proof (fold_min_le _ f Hin 4294967295). pose proof (fold_max_ge _ f Hin 0). unfold fc_end in *.
+    apply andb_true_iff. split; [apply Z.leb_le | apply Z.ltb_lt]; lia. }
+  destruct (bh_hull h) as [hs he]. rewrite Hhull.
+  rewrite Hm, Lk. cbn [Z.eqb Pos.eqb Nat.eqb negb].
+  change (fun f0 : fac => (fc_start f0 <=? a) && (a <? fc_start f0 + fc_len f0)) with (fun f0 => fac_covers f0 a) in *.
+  unfold fac_covers, fc_end in Hf |- *. rewrite Hf.
+  replace (a + zlen data >? fc_start f + fc_len f) with false
+    by (symmetry; rewrite Z.gtb_ltb; apply Z.ltb_ge; unfold zlen; lia).
+  rewrite Lc, Hz. cbn [Nat.eqb negb].
+  change (Z.of_N (be_dec [0%N; 0%N; 0%N; 0%N])) with 0. rewrite Z.shiftr_div_pow2 by lia. change (2 ^ 4) with 16.
+  replace (u32_ok (0 + a / 16)) with true
+    by (symmetry; unfold u32_ok; apply andb_true_iff; split; [apply Z.leb_le | apply Z.ltb_lt]; lia).
+  reflexivity.
+Qed.
+
+Lemma fac_covers_unit f a a' : fac_wf f -> a' / 1024 = a / 1024 -> fac_covers f a' = fac_covers f a.
+Proof.
+  intros (F0 & F1 & F2 & F3 & F4) H. unfold fac_covers, fc_end.
+  apply eq_true_iff_eq. rewrite !andb_true_iff, !Z.leb_le, !Z.ltb_lt. lia.
+Qed.
+Lemma bh_covers_unit h a a' : bh_wf h -> a' / 1024 = a / 1024 -> bh_covers h a' = bh_covers h a.
+Proof.
+  intros (_ & _ & _ & _ & _ & Wf) H. unfold bh_covers.
+  induction Wf as [|f fs Hf _ IH]; [reflexivity|]. cbn [existsb]. now rewrite (fac_covers_unit f a a' Hf H), IH.
+Qed.
+
+Lemma bc_hit_bctx h a : bc_hit (bctx_of h) a = bh_covers h a.
+Proof.
+  unfold bc_hit, bh_covers, bctx_of. cbn [bc_regions].
+  induction (bh_facs h) as [|f fs IH]; [reflexivity|]. cbn [map existsb fst snd]. now rewrite IH.
+Qed.
+
+Lemma bheaders_disjoint_at hs a : bheaders_disjoint hs ->
+  ForallOrdPairs (fun h1 h2 => bh_covers h1 a = true -> bh_covers h2 a = false) hs.
+Proof.
+  induction 1 as [|h l Hh Hl IH]; constructor; [|assumption].
+  eapply Forall_impl; [|exact Hh]. intros h2 H. apply H.
+Qed.
+
+Section BeeImage.
+Variable E : cipher.
+Variable ohs : list (option bhdr).
+Hypothesis W : Forall bh_wf (bee_actives ohs).
+Hypothesis Dj : bheaders_disjoint (bee_actives ohs).
+Hypothesis E_len : forall h, In h (bee_actives ohs) -> forall x, length x = 16%nat -> length (E (bh_swkey h) x) = 16%nat.
+
+Definition bee_enc1 (h : bhdr) (a : Z) (blk : list N) : list N :=
+  ctr_xcrypt (E (bh_swkey h)) (firstn 12 (bh_counter h) ++ be32 (a / 16)) (pad16_rnd blk).
+Definition bee_dec1 (h : bhdr) (a : Z) (blk : list N) : list N :=
+  xor_bytes blk (E (bh_swkey h) (firstn 12 (bh_counter h) ++ be32 ((Z.of_N (be_dec (skipn 12 (bh_counter h))) + a / 16) mod M32))).
+
+Lemma bee_piece_uncovered l a blk :
+  Forall bh_wf (bee_actives l) -> (forall h, In h (bee_actives l) -> bh_covers h a = false) ->
+  (length blk <= 1024)%nat -> bee_piece E l a blk = Ok blk.
+Proof.
+  induction l as [|o l IH]; intros Wl Hc Hl; [reflexivity|].
+  destruct o as [h|]; cbn [bee_piece].
+  - unfold bee_actives in *. cbn [map concat app] in *. inversion Wl; subst.
+    rewrite bee_block_uncovered; try assumption; [|apply Hc; now left].
+    apply IH; try assumption. intros h' Hh'. apply Hc. now right.
+  - apply IH; assumption.
+Qed.
+
+Lemma bee_piece_sel a blk : 0 <= a -> a mod 1024 = 0 -> (length blk <= 1024)%nat ->
+  bee_piece E ohs a blk =
+  Ok (match find (fun h => bh_covers h a) (bee_actives ohs) with Some h => bee_enc1 h a blk | None => blk end).
+Proof.
+  intros Ha Hal Hl. pose proof (bheaders_disjoint_at _ a Dj) as Dja. clear Dj.
+  induction ohs as [|o l IH]; [reflexivity|].
+  destruct o as [h|]; cbn [bee_piece].
+  - unfold bee_actives in *. cbn [map concat app find] in *.
+    inversion W as [|? ? Wh Wl]; subst. inversion Dja as [|? ? Dh Dl]; subst.
+    destruct (bh_covers h a) eqn:Ec.
+    + rewrite bee_block_covered by assumption. fold (bee_enc1 h a blk).
+      apply bee_piece_uncovered; try assumption.
+      * intros h' Hh'. rewrite Forall_forall in Dh. now apply Dh.
+      * unfold bee_enc1. rewrite ctr_length.
+        -- apply pad16_rnd_le; [assumption | reflexivity].
+        -- apply E_len. now left.
+        -- destruct Wh as (_ & _ & Lc & _). rewrite app_length, firstn_length, be32_length, Lc. reflexivity.
+    + rewrite bee_block_uncovered by assumption. apply IH; try assumption.
+      intros h' Hh'. apply E_len. now right.
+  - apply IH; assumption.
+Qed.
+
+Lemma bee_hw_block_uncovered hs a blk : (forall h, In h hs -> bh_covers h a = false) ->
+  bee_hw_block E (map bctx_of hs) a blk = blk.
+Proof.
+  induction hs as [|h l IH]; intros Hc; [reflexivity|]. cbn [bee_hw_block map fold_right].
+  unfold bee_hw_engine at 1. rewrite bc_hit_bctx, (Hc h (or_introl eq_refl)).
+  apply IH. intros h' Hh'. apply Hc. now right.
+Qed.
+
+Lemma bee_hw_block_sel hs a blk : bheaders_disjoint hs ->
+  bee_hw_block E (map bctx_of hs) a blk =
+  match find (fun h => bh_covers h a) hs with Some h => bee_dec1 h a blk | None => blk end.
+Proof.
+  intros D. pose proof (bheaders_disjoint_at _ a D) as Da. clear D.
+  induction hs as [|h l IH]; [reflexivity|]. inversion Da as [|? ? Dh Dl]; subst.
+  cbn [map find]. change (bee_hw_block E (bctx_of h :: map bctx_of l) a blk)
+    with (bee_hw_engine E (bctx_of h) a (bee_hw_block E (map bctx_of l) a blk)).
+  unfold bee_hw_engine. rewrite bc_hit_bctx. destruct (bh_covers h a) eqn:Ec.
+  - rewrite bee_hw_block_uncovered; [reflexivity|]. intros h' Hh'. rewrite Forall_forall in Dh. now apply Dh.
+  - now apply IH.
+Qed.
+
+Definition bee_hu (a : Z) (c : list N) : list N := concat (pieces (bee_hw_block E (map bctx_of (bee_actives ohs))) 16 a c).
+
+Lemma find_bh_covers_unit hs a a' : Forall bh_wf hs -> a' / 1024 = a / 1024 ->
+  find (fun h => bh_covers h a') hs = find (fun h => bh_covers h a) hs.
+Proof.
+  intros Wh H. induction Wh as [|h l Hh _ IH]; [reflexivity|]. cbn [find].
+  rewrite (bh_covers_unit h a a' Hh H). destruct (bh_covers h a); [reflexivity | exact IH].
+Qed.
+
+Lemma bee_hu_sel a c : 0 <= a -> a mod 1024 = 0 -> (length c <= 1024)%nat ->
+  bee_hu a c =
+  match find (fun h => bh_covers h a) (bee_actives ohs) with
+  | Some h => concat (pieces (bee_dec1 h) 16 a c)
+  | None => c
+  end.
+Proof.
+  intros Ha Hal Hl. unfold bee_hu.
+  assert (Hr : forall a' b, a <= a' < a + zlen c ->
+            bee_hw_block E (map bctx_of (bee_actives ohs)) a' b =
+            match find (fun h => bh_covers h a) (bee_actives ohs) with Some h => bee_dec1 h a' b | None => b end).
+  { intros a' b Hr. rewrite bee_hw_block_sel by assumption.
+    rewrite (find_bh_covers_unit _ a a'); [reflexivity | assumption|]. unfold zlen in Hr. lia. }
+  rewrite (pieces_ext_range _ _ 16 a c Hr).
+  destruct (find (fun h => bh_covers h a) (bee_actives ohs)); [reflexivity|]. apply concat_pieces_id. lia.
+Qed.
+
+Lemma bee_piece_ok a p : 0 <= a -> a mod 1024 = 0 -> p <> [] -> (length p <= 1024)%nat ->
+  exists c, bee_piece E ohs a p = Ok c /\ rt_piece bee_hu 1024 (bee_outside (bee_actives ohs)) a p c.
+Proof.
+  intros Ha Hal Hp Hl. rewrite bee_piece_sel by assumption. eexists. split; [reflexivity|].
+  destruct (find (fun h => bh_covers h a) (bee_actives ohs)) as [h|] eqn:Ef.
+  2:{ unfold rt_piece. rewrite bee_hu_sel by assumption. rewrite Ef. repeat split; try lia; auto. apply firstn_all. }
+  destruct (find_some _ _ Ef) as [Hin Hcov].
+  pose proof (proj1 (Forall_forall _ _) W h Hin) as Wh. pose proof Wh as (Hm & Lk & Lc & Wc & Hz & Wf).
+  set (d := pad16_rnd p).
+  assert (Hd1 : (length p <= length d)%nat) by apply pad16_rnd_length_ge.
+  assert (Hd2 : (length d <= 1024)%nat) by (apply pad16_rnd_le; [assumption | reflexivity]).
+  assert (Hd3 : Nat.modulo (length d) 16 = 0%nat) by apply pad16_rnd_length_mod.
+  destruct (mod_mult_exists _ 16 ltac:(lia) Hd3) as [q Hq].
+  (* a < 2^32 because it lies in a FAC region *)
+  assert (Ha32 : a < 4294967295 - 1023).
+  { unfold bh_covers in Hcov. apply existsb_exists in Hcov. destruct Hcov as (f & Hf & Hc).
+    rewrite Forall_forall in Wf. pose proof (Wf f Hf) as (F0 & F1 & F2 & F3 & F4).
+    unfold fac_covers, fc_end in *. apply andb_true_iff in Hc. destruct Hc as [C1 C2].
+    apply Z.leb_le in C1. apply Z.ltb_lt in C2. lia. }
+  set (n12 := firstn 12 (bh_counter h)).
+  assert (L12 : length n12 = 12%nat) by (unfold n12; rewrite firstn_length, Lc; reflexivity).
+  assert (W12 : wf_bytes n12) by (unfold n12; now apply wf_bytes_firstn).
+  assert (Henc : bee_enc1 h a p =
+                 concat (pieces (fun x blk => xor_bytes blk (E (bh_swkey h) (n12 ++ be32 (x / 16)))) 16 a d)).
+  { unfold bee_enc1. fold n12. fold d. rewrite (ctr_xcrypt_pieces _ n12 q); try assumption; try lia.
+    replace (16 * (a / 16)) with a by lia. reflexivity. }
+  rewrite Henc.
+  destruct (pieces_inverse (fun x blk => xor_bytes blk (E (bh_swkey h) (n12 ++ be32 (x / 16)))) (bee_dec1 h) 16 q a d
+              ltac:(lia) Hq) as [Inv Len].
+  { intros j blk Hj Hb. unfold bee_dec1. fold n12. rewrite Hz.
+    change (Z.of_N (be_dec [0%N; 0%N; 0%N; 0%N])) with 0.
+    replace ((0 + (a + Z.of_nat (j * 16)) / 16) mod M32) with ((a + Z.of_nat (j * 16)) / 16)
+      by (unfold M32; rewrite Z.mod_small; lia).
+    assert (Lks : length (E (bh_swkey h) (n12 ++ be32 ((a + Z.of_nat (j * 16)) / 16))) = 16%nat).
+    { apply E_len; [assumption|]. rewrite app_length, L12, be32_length. reflexivity. }
+    split; [rewrite xor_bytes_length_min, Hb, Lks; reflexivity|].
+    apply xor_bytes_cancel. rewrite Hb, Lks. auto. }
+  set (c := concat (pieces (fun x blk => xor_bytes blk (E (bh_swkey h) (n12 ++ be32 (x / 16)))) 16 a d)) in *.
+  assert (Hh : bee_hu a c = d) by (rewrite bee_hu_sel by (try assumption; lia); rewrite Ef; exact Inv).
+  unfold rt_piece. rewrite Hh, Len. repeat split; try lia.
+  - apply pad16_rnd_prefix.
+  - intros i Hi HQ. exfalso.
+    assert (Hcv : bh_covers h (a + Z.of_nat i) = true) by (rewrite (bh_covers_unit h a) by (try assumption; lia); exact Hcov).
+    rewrite (HQ h Hin) in Hcv. discriminate.
+Qed.
+
+Lemma bee_decrypts_aligned img base : 0 <= base -> base mod 1024 = 0 ->
+  exists out, bee_export_image E ohs img base = Ok out /\
+              (length img <= length out)%nat /\
+              firstn (length img) (bee_hw E (map bctx_of (bee_actives ohs)) base out) = img /\
+              (forall i, (i < length img)%nat -> bee_outside (bee_actives ohs) (base + Z.of_nat i) ->
+                         nth i out 0%N = nth i img 0%N).
+Proof.
+  intros Hb Hal.
+  destruct (walk_roundtrip (bee_piece E ohs) bee_hu 1024 (fun a => 0 <= a /\ a mod 1024 = 0)
+              (base + zlen img) (bee_outside (bee_actives ohs)) (fun _ => True) ltac:(auto) ltac:(auto) ltac:(lia))
+    with (base := base) (data := img)
+    as (out & Ho & R1 & R2 & R3); try (split; assumption); try reflexivity; try exact I.
+  - intros a [A1 A2]. split; lia.
+  - intros a p [A1 A2] Hp Hl _ _ _. now apply bee_piece_ok.
+  - exists out. unfold bee_export_image, U1K. split; [exact Ho|]. split; [exact R1|]. split; [|exact R3].
+    unfold bee_hw. rewrite (pieces_regroup _ 16 64 (length out)) by lia. exact R2.
+Qed.
+End BeeImage.
+
+(* ---------------- BEE: the recorded finding (same shape as OTFAD D25) ---------------- *)
+Definition bee_wit : bhdr :=
+  {| bh_counter := le_enc 12 7 ++ [0; 0; 0; 0]%N; bh_mode := 1; bh_lock := 0;
+     bh_facs := [{| fc_start := 4096; fc_len := 4096; fc_level := 0 |}];
+     bh_swkey := le_enc 16 1; bh_kibkey := le_enc 16 2; bh_kibiv := le_enc 16 3 |}.
+
+Lemma bee_wit_wf : Forall bh_wf (bee_actives [Some bee_wit]) /\ bheaders_disjoint (bee_actives [Some bee_wit]).
+Proof.
+  split.
+  - constructor; [|constructor]. unfold bh_wf, bee_wit. cbn. repeat split; try reflexivity.
+    + unfold wf_bytes, wf_byte. repeat constructor.
+    + constructor; [|constructor]. unfold fac_wf, fc_end. cbn. repeat split; lia.
+  - constructor; constructor.
+Qed.
+
+(* base 16- but not 1 KiB-aligned: a piece that starts outside the FAC region and ends inside stays plain (the hardware
+   garbles its tail); a piece that starts inside and ends outside is refused with an SPSDKError *)
+Lemma bee_decrypts_refuted_l :
+  exists ohs, Forall bh_wf (bee_actives ohs) /\ bheaders_disjoint (bee_actives ohs) /\
+    (exists img base, 0 <= base /\ base mod 16 = 0 /\
+       exists out, bee_export_image aes_c ohs img base = Ok out /\
+                   firstn (length img) (bee_hw aes_c (map bctx_of (bee_actives ohs)) base out) <> img) /\
+    (exists img base, 0 <= base /\ base mod 16 = 0 /\ bee_export_image aes_c ohs img base = Err 1).
+Proof.
+  exists [Some bee_wit]. destruct bee_wit_wf as [W D]. split; [exact W|]. split; [exact D|]. split.
+  - exists (repeat 0%N 1024), 3584. split; [lia|]. split; [reflexivity|].
+    eexists. split; [vm_compute; reflexivity|].
+    intros H. apply (f_equal (fun l => nth 512 l 0%N)) in H. vm_compute in H. discriminate.
+  - exists (repeat 0%N 1024), 7680. split; [lia|]. split; [reflexivity|]. vm_compute. reflexivity.
+Qed.
+
+Lemma bee_address_only_l (E : cipher) ohs base x y q :
+  length x = (q * 1024)%nat ->
+  bee_export_image E ohs (x ++ y) base =
+  match bee_export_image E ohs x base with
+  | Ok cx => match bee_export_image E ohs y (base + zlen x) with Ok cy => Ok (cx ++ cy) | Err k => Err k end
+  | Err k => Err k
+  end.
+Proof. intros H. unfold bee_export_image, U1K. apply (walk_address_only_l _ 1024 q); [lia | exact H]. Qed.
+
+(* ================================================================== BEE / IEE key material: crypto layer ==== *)
+Lemma zeros_wf k : wf_bytes (zeros k).
+Proof. unfold wf_bytes, zeros. apply Forall_forall. intros x Hx. apply repeat_spec in Hx. subst. unfold wf_byte. lia. Qed.
+Lemma le32_wf z : wf_bytes (le32 z).
+Proof. apply le_enc_wf. Qed.
+Lemma extend_to_length n l : (length l <= n)%nat -> length (extend_to n l) = n.
+Proof. intros H. unfold extend_to. rewrite app_length, zeros_length. lia. Qed.
+Lemma extend_to_wf n l : wf_bytes l -> wf_bytes (extend_to n l).
+Proof. intros H. unfold extend_to. apply wf_bytes_app; [assumption | apply zeros_wf]. Qed.
+Lemma wf_bytes_rev l : wf_bytes l -> wf_bytes (rev l).
+Proof. unfold wf_bytes. apply Forall_rev. Qed.
+
+Lemma fac_exports_length fs : length (concat (map fac_export fs)) = (32 * length fs)%nat.
+Proof.
+  induction fs as [|f fs IH]; [reflexivity|]. cbn [map concat length]. rewrite app_length, IH.
+  unfold fac_export. rewrite !app_length, !le32_length, zeros_length. lia.
+Qed.
+Lemma fac_exports_wf fs : wf_bytes (concat (map fac_export fs)).
+Proof.
+  induction fs as [|f fs IH]; [constructor|]. cbn [map concat]. apply wf_bytes_app; [|exact IH].
+  unfold fac_export. repeat apply wf_bytes_app; try apply le32_wf. apply zeros_wf.
+Qed.
+
+Lemma prdb_export_shape h p : wf_bytes (bh_counter h) -> prdb_export h = Ok p -> length p = 256%nat /\ wf_bytes p.
+Proof.
+  intros Wc. unfold prdb_export. destruct (prdb_ok h) eqn:Eok; [|discriminate]. cbn [negb].
+  destruct (u32_ok (bh_lock h)); [|discriminate]. cbn [negb]. destruct (bh_hull h) as [hs he].
+  intros H. assert (HH : forall (x y : list N), @Ok (list N) x = Ok y -> x = y) by (intros x y E0; now injection E0).
+  apply HH in H. subst p. clear HH.
+  unfold prdb_ok in Eok. destruct (match bh_facs h with [] => (0, 0) | _ :: _ => bh_hull h end) as [a b].
+  rewrite !andb_true_iff in Eok. destruct Eok as (((((((_ & _) & _) & Lc) & _) & _) & Ln) & _).
+  apply Nat.eqb_eq in Lc. apply Nat.leb_le in Ln. split.
+  - apply extend_to_length. rewrite !app_length, !le32_length, rev_length, Lc, zeros_length, fac_exports_length. lia.
+  - apply extend_to_wf. repeat apply wf_bytes_app; try apply le32_wf; try apply zeros_wf.
+    + now apply wf_bytes_rev.
+    + apply fac_exports_wf.
+Qed.
+
+Lemma concat_okb_length bs : Forall okb bs -> length (concat bs) = (16 * length bs)%nat.
+Proof. induction 1 as [|b bs [Lb _] _ IH]; [reflexivity|]. cbn [concat length]. rewrite app_length, IH, Lb. lia. Qed.
+
+Lemma ecb_length (E : list N -> list N) m : (forall b, okb b -> okb (E b)) -> wf_bytes m -> Nat.modulo (length m) 16 = 0%nat ->
+  length (ecb E m) = length m.
+Proof.
+  intros E_ok Wm Hm. pose proof (okb_chunks m Wm Hm) as Hc.
+  assert (Hc' : Forall okb (ecb_blocks E (chunks 16 m))).
+  { unfold ecb_blocks. apply Forall_forall. intros x Hx. apply in_map_iff in Hx. destruct Hx as (y & <- & Hy).
+    apply E_ok. rewrite Forall_forall in Hc. now apply Hc. }
+  unfold ecb, BS. rewrite (concat_okb_length _ Hc'). unfold ecb_blocks. rewrite map_length.
+  pose proof (concat_okb_length _ Hc) as H1. rewrite concat_chunks in H1 by lia. symmetry. exact H1.
+Qed.
+
+(* the encrypted BEE region header decrypts, with the SW key, to the KIB and, with the KIB key / IV, to the plain PRDB *)
+Lemma bee_header_unwrap_partial_l (E D : cipher) h hdr :
+  (forall x, okb x -> D (bh_swkey h) (E (bh_swkey h) x) = x) -> (forall x, okb x -> okb (E (bh_swkey h) x)) ->
+  (forall x, okb x -> D (bh_kibkey h) (E (bh_kibkey h) x) = x) -> (forall x, okb x -> okb (E (bh_kibkey h) x)) ->
+  wf_bytes (bh_counter h) -> wf_bytes (bh_kibkey h) -> wf_bytes (bh_kibiv h) ->
+  bee_header_export E h = Ok hdr ->
+  exists prdb, prdb_export h = Ok prdb /\ length hdr = 512%nat /\
+               ecb (D (bh_swkey h)) (firstn 32 hdr) = bh_kibkey h ++ bh_kibiv h /\
+               cbc_dec (D (bh_kibkey h)) (bh_kibiv h) (firstn 256 (skipn 128 hdr)) = prdb.
+Proof.
+  intros DE1 EO1 DE2 EO2 Wc Wk Wi H. unfold bee_header_export in H.
+  destruct (Nat.eqb (length (bh_kibkey h)) 16) eqn:Lk; [|discriminate]. apply Nat.eqb_eq in Lk.
+  destruct (Nat.eqb (length (bh_kibiv h)) 16) eqn:Li; [|discriminate]. apply Nat.eqb_eq in Li. cbn [negb] in H.
+  destruct (prdb_export h) as [prdb|] eqn:Ep; [|discriminate].
+  destruct (Nat.eqb (length (bh_swkey h)) 16) eqn:Ls; [|discriminate]. cbn [negb] in H.
+  assert (HH : forall (x y : list N), @Ok (list N) x = Ok y -> x = y) by (intros x y E0; now injection E0).
+  apply HH in H. subst hdr. clear HH.
+  destruct (prdb_export_shape h prdb Wc Ep) as [Lp Wp].
+  set (kib := bh_kibkey h ++ bh_kibiv h).
+  assert (Lkib : length kib = 32%nat) by (unfold kib; rewrite app_length, Lk, Li; reflexivity).
+  assert (Wkib : wf_bytes kib) by (unfold kib; now apply wf_bytes_app).
+  assert (Okiv : okb (bh_kibiv h)) by (split; assumption).
+  set (ekib := ecb (E (bh_swkey h)) kib).
+  assert (Lek : length ekib = 32%nat).
+  { unfold ekib. rewrite ecb_length; try assumption. rewrite Lkib. reflexivity. }
+  destruct (cbc_enc_length (E (bh_kibkey h)) EO2 (bh_kibiv h) prdb Okiv Wp ltac:(rewrite Lp; reflexivity)) as [Lc Wcb].
+  set (eprdb := cbc_enc (E (bh_kibkey h)) (bh_kibiv h) prdb) in *. rewrite Lp in Lc.
+  exists prdb. split; [reflexivity|]. split.
+  - apply extend_to_length. rewrite app_length, extend_to_length, Lc; lia.
+  - unfold extend_to. rewrite Lek. rewrite <- !app_assoc. split.
+    + rewrite firstn_app_exact by assumption. unfold ekib.
+      apply (ecb_dec_enc_l (E (bh_swkey h)) (D (bh_swkey h)) DE1 EO1); [assumption | rewrite Lkib; reflexivity].
+    + rewrite (app_assoc ekib). rewrite skipn_app_exact by (rewrite app_length, Lek, zeros_length; reflexivity).
+      rewrite firstn_app_exact by assumption. unfold eprdb.
+      apply (cbc_dec_enc_l (E (bh_kibkey h)) (D (bh_kibkey h)) DE2 EO2); [assumption | assumption | rewrite Lp; reflexivity].
+Qed.
+
+Lemma align_zero_wf k l : wf_bytes l -> wf_bytes (align_zero k l).
+Proof.
+  intros H. unfold align_zero. destruct (Nat.modulo (length l) k); [assumption|].
+  apply wf_bytes_app; [assumption | apply zeros_wf].
+Qed.
+
+Lemma ib_plain_wf b p : wf_bytes (ib_key1 b) -> wf_bytes (ib_key2 b) -> ib_plain b = Ok p -> wf_bytes p.
+Proof.
+  intros W1 W2. unfold ib_plain.
+  destruct (byte_ok (ib_lock b) && byte_ok (ib_keyattr b) && byte_ok (ib_mode b) && u32_ok (ib_po b)
+            && u32_ok (ib_start b) && u32_ok (ib_end b)) eqn:Eok; [|discriminate]. cbn [negb].
+  intros H. assert (HH : forall (x y : list N), @Ok (list N) x = Ok y -> x = y) by (intros x y E0; now injection E0).
+  apply HH in H. subst p. clear HH.
+  rewrite !andb_true_iff in Eok. destruct Eok as (((((B1 & B2) & B3) & _) & _) & _).
+  unfold byte_ok in B1, B2, B3. rewrite andb_true_iff, Z.leb_le, Z.ltb_lt in B1, B2, B3.
+  repeat apply wf_bytes_app; try apply le32_wf; try apply le_enc_wf; try (apply align_zero_wf; assumption).
+  unfold wf_bytes, wf_byte. repeat constructor; lia.
+Qed.
+
+Lemma res_concat_map_wf {B} (f : B -> res (list N)) l t :
+  (forall b p, In b l -> f b = Ok p -> wf_bytes p) -> res_concat_map f l = Ok t -> wf_bytes t.
+Proof.
+  revert t. induction l as [|b l IH]; intros t Hf H.
+  - cbn in H. assert (t = []) by congruence. subst. constructor.
+  - cbn [res_concat_map] in H. destruct (f b) as [x|] eqn:Ex; [|discriminate].
+    destruct (res_concat_map f l) as [y|] eqn:Ey; [|discriminate].
+    assert (t = x ++ y) by congruence. subst. apply wf_bytes_app.
+    + apply (Hf b x); [now left | assumption].
+    + apply IH; [|reflexivity]. intros b' p Hb'. apply Hf. now right.
+Qed.
+
+(* the encrypted IEE key blob table decrypts (AES-XTS, word-reversed IBKEKs, tweak = sector of the table address) to
+   the plain table of Iee.get_key_blobs *)
+Lemma iee_keyblob_unwrap_partial_l (E D : cipher) blobs kek1 kek2 addr table :
+  (forall x, okb x -> D (word_rev kek1) (E (word_rev kek1) x) = x) -> (forall x, okb x -> okb (E (word_rev kek1) x)) ->
+  (forall x, okb x -> okb (E (word_rev kek2) x)) ->
+  Forall (fun b => wf_bytes (ib_key1 b) /\ wf_bytes (ib_key2 b)) blobs ->
+  iee_encrypt_key_blobs E blobs kek1 kek2 addr = Ok table ->
+  exists plain, iee_get_key_blobs blobs = Ok plain /\ length table = length plain /\
+                xts_crypt (D (word_rev kek1)) (E (word_rev kek2)) true (le_enc 16 (Z.to_N (addr / 4096))) table = plain.
+Proof.
+  intros DE EO1 EO2 Wb H. unfold iee_encrypt_key_blobs in H.
+  destruct (iee_get_key_blobs blobs) as [plain|] eqn:Eg; [|discriminate].
+  assert (Wp : wf_bytes plain).
+  { unfold iee_get_key_blobs in Eg. destruct (res_concat_map ib_plain blobs) as [t|] eqn:Et; [|discriminate].
+    assert (plain = align_zero 384 t) by congruence. subst. apply align_zero_wf.
+    apply (res_concat_map_wf ib_plain blobs t); [|assumption].
+    intros b p Hb Hp. rewrite Forall_forall in Wb. destruct (Wb b Hb). now apply (ib_plain_wf b). }
+  unfold reverse_bytes_in_longs in H.
+  destruct (Nat.eqb (Nat.modulo (length kek1) 4) 0) eqn:K1; [|discriminate].
+  destruct (Nat.eqb (Nat.modulo (length kek2) 4) 0) eqn:K2; [|discriminate].
+  destruct (Nat.ltb (length plain) 16) eqn:Lp; [discriminate|]. apply Nat.ltb_ge in Lp.
+  assert (R1 : rev_longs_fuel (length kek1) kek1 = word_rev kek1) by (unfold word_rev, chunks; now rewrite word_rev_fuel).
+  assert (R2 : rev_longs_fuel (length kek2) kek2 = word_rev kek2) by (unfold word_rev, chunks; now rewrite word_rev_fuel).
+  rewrite R1, R2 in H.
+  assert (HH : forall (x y : list N), @Ok (list N) x = Ok y -> x = y) by (intros x y E0; now injection E0).
+  apply HH in H. subst table. clear HH.
+  assert (Htw : iee_tweak addr = le_enc 16 (Z.to_N (addr / 4096))).
+  { unfold iee_tweak. rewrite Z.shiftr_div_pow2 by lia. reflexivity. }
+  rewrite Htw.
+  assert (Hokt : okb (E (word_rev kek2) (le_enc 16 (Z.to_N (addr / 4096))))) by (apply EO2, le_enc16_okb).
+  exists plain. split; [reflexivity|]. split.
+  - apply (xts_enc_length (E (word_rev kek1)) EO1); assumption.
+  - apply (xts_dec_enc_l (E (word_rev kek1)) (D (word_rev kek1)) DE EO1); assumption.
+Qed.
+
+(* ================================================================== the premises hold for the concrete AES ===== *)
+Lemma aes_cipher_laws key : aes_key_ok key = true -> wf_bytes key ->
+  (forall b, okb b -> aes_d key (aes_c key b) = b) /\ (forall b, okb b -> okb (aes_c key b)) /\
+  (forall x, length x = 16%nat -> length (aes_c key x) = 16%nat).
+Proof.
+  intros Hk Wk. repeat split.
+  - intros b Hb. exact (proj1 (aes_dec_enc key b Hk Wk Hb)).
+  - exact (proj1 (proj2 (aes_dec_enc key b Hk Wk H))).
+  - exact (proj2 (proj2 (aes_dec_enc key b Hk Wk H))).
+  - intros x Hx. now apply aes_enc_length.
+Qed.
+
+Lemma otfad_keyblob_unwrap_aes_l kek k cnt :
+  kb_codec_wf k -> length kek = 16%nat -> wf_bytes kek -> In cnt [0; 2; 4; 8; 16] ->
+  exists rec c, kb_export aes_c k kek cnt = Ok rec /\ length rec = 64%nat /\ otfad_unwrap aes_d kek cnt rec = Some c /\
+                oc_key c = kb_key k /\ oc_ctr c = kb_ctr k /\ oc_w0 c = kb_start k /\
+                Z.shiftr (oc_w1 c) 10 = (kb_end k - 1) / 1024 /\
+                (forall n, 0 <= n < 3 -> Z.testbit (oc_w1 c) n = Z.testbit (kb_flags k) n).
+Proof.
+  intros Wc Lk Wk Hc.
+  assert (Hok : aes_key_ok kek = true) by (unfold aes_key_ok; rewrite Lk; reflexivity).
+  destruct (aes_cipher_laws kek Hok Wk) as (DE & EO & _).
+  now apply otfad_keyblob_unwrap_full.
+Qed.
+
+Lemma otfad_decrypts_aes_l blobs swap img base :
+  Forall kb_wf blobs -> blobs_disjoint blobs ->
+  (forall k, In k blobs -> length (kb_key k) = 16%nat /\ wf_bytes (kb_key k)) ->
+  0 <= base -> base mod 1024 = 0 ->
+  (forall k, In k blobs -> kb_end k mod 1024 = 0 -> kb_end k <> base + zlen img - 1) ->
+  exists out, otfad_encrypt_image aes_c blobs img base swap = Ok out /\
+              (length img <= length out)%nat /\
+              firstn (length img) (otfad_hw aes_c (map octx_of_blob blobs) swap base out) = img /\
+              (forall i, (i < length img)%nat -> otfad_outside blobs (base + Z.of_nat i) -> nth i out 0%N = nth i img 0%N).
+Proof.
+  intros W D HK Hb Hal Hx. apply otfad_decrypts_aligned; try assumption.
+  intros k Hin x Hx'. destruct (HK k Hin) as [Lk Wk].
+  assert (Hok : aes_key_ok (kb_key k) = true) by (unfold aes_key_ok; rewrite Lk; reflexivity).
+  now apply (aes_cipher_laws (kb_key k) Hok Wk).
+Qed.
+
+(* the cipher premises of the IEE theorem are satisfiable: they hold for the concrete AES *)
+Lemma ib_cipher_ok_aes b :
+  aes_key_ok (word_rev (ib_key1 b)) = true -> wf_bytes (word_rev (ib_key1 b)) ->
+  aes_key_ok (word_rev (ib_key2 b)) = true -> wf_bytes (word_rev (ib_key2 b)) ->
+  ib_cipher_ok aes_c aes_d b.
+Proof.
+  intros K1 W1 K2 W2. unfold ib_cipher_ok.
+  destruct (aes_cipher_laws _ K1 W1) as (DE & EO & EL). destruct (aes_cipher_laws _ K2 W2) as (_ & EO2 & _).
+  destruct (ib_mode b =? MODE_XTS); [split; [exact DE | split; [exact EO | exact EO2]] | exact EL].
+Qed.
+
+Example ib_premises_instance :
+  let b := iee_wit MODE_XTS (le_enc 16 2) in ib_wf b /\ ib_cipher_ok aes_c aes_d b /\ ib_no_ctr_overflow b 8192.
+Proof.
+  cbv zeta. split; [|split].
+  - unfold ib_wf, iee_wit. cbn. repeat split; lia.
+  - apply ib_cipher_ok_aes; try reflexivity; unfold wf_bytes, wf_byte; cbn; repeat constructor.
+  - intros H. discriminate.
+Qed.
+
+(* (T1) the constants used by the hand model are the ones found in the source on this run *)
+Example flashenc_constants_tied :
+  Z.of_nat U1K = src_otfad_unit /\ Z.of_nat U1K = src_bee_unit /\ Z.of_nat U4K = src_iee_unit /\ Z.of_nat U4K = src_iee_xts_unit /\
+  src_otfad_start_mask = 1023 /\ src_otfad_end_mask = 1016 /\ src_otfad_flag_mask = 7 /\ src_otfad_flag_ade = 2 /\
+  src_otfad_flag_vld = 1 /\ src_otfad_key_size = 16 /\ src_otfad_ctr_size = 8 /\ src_otfad_blob_size = 64 /\
+  src_otfad_block = 16 /\ src_iee_block = 16 /\ src_iee_start_mask = 1023 /\ src_iee_table_size = 384 /\
+  MODE_BYPASS = src_iee_mode_bypass /\ MODE_XTS = src_iee_mode_xts /\ MODE_CTR_ADDR = src_iee_mode_ctr_addr /\
+  MODE_CTR_NOADDR = src_iee_mode_ctr_noaddr /\ MODE_CTR_KS = src_iee_mode_ctr_ks /\
+  KEYATTR_128_256 = src_iee_attr_128 /\ KEYATTR_256_512 = src_iee_attr_256 /\
+  src_iee_tag = 1229276482 /\ src_iee_version = 1442906112 /\
+  src_bee_mask = 1023 /\ src_bee_mode_ctr = 1 /\ src_bee_tagl = 1598505300 /\ src_bee_tagh = 1380206661 /\
+  src_bee_version = 1442906112 /\ src_bee_fac_regions = 4 /\ src_bee_prdb_size = 256 /\ src_bee_prdb_offset = 128 /\
+  src_bee_header_size = 512.
+Proof. repeat split; reflexivity. Qed.
